@@ -1359,7 +1359,7 @@ Definition strict_contents (c: bytes) : bool := bytes_eqb c [0] || bytes_eqb c [
 (* what a guiding type says about the tree of an accepted element: under every EXPLICIT tag exactly one
    member; BOOLEAN primitive with contents 00/FF and string types primitive WHATEVER tag they carry
    (IMPLICIT tagging); members of SEQUENCE OF / SET OF, and each member of a SEQUENCE / SET as one of
-   its components, recursively *)
+   its components - a component whose outermost tag is the member's (X690.may_start) - recursively *)
 Fixpoint gshape (T: ty) (n: node) {struct T} : bool :=
   match T with
   | TImp _ x => gshape x n
@@ -1373,17 +1373,17 @@ Fixpoint gshape (T: ty) (n: node) {struct T} : bool :=
           match fs with
           | [] => true
           | _ => forallb (fun k => (fix ex (l: list (presence * ty)) : bool :=
-                                      match l with [] => false | (_, ft) :: r => gshape ft k || ex r end) fs) kids
+                                      match l with [] => false | (_, ft) :: r => (may_start ft (node_tag k) && gshape ft k) || ex r end) fs) kids
           end
       | _ => false
       end
-  | TChoice alts => (fix ex (l: list ty) : bool := match l with [] => false | a :: r => gshape a n || ex r end) alts
+  | TChoice alts => (fix ex (l: list ty) : bool := match l with [] => false | a :: r => (may_start a (node_tag n) && gshape a n) || ex r end) alts
   | _ => true
   end.
 
 Lemma gshape_fields_ex fs k : 
-  (fix ex (l: list (presence * ty)) : bool := match l with [] => false | (_, ft) :: r => gshape ft k || ex r end) fs
-  = existsb (fun ft => gshape ft k) (map snd fs).
+  (fix ex (l: list (presence * ty)) : bool := match l with [] => false | (_, ft) :: r => (may_start ft (node_tag k) && gshape ft k) || ex r end) fs
+  = existsb (fun ft => may_start ft (node_tag k) && gshape ft k) (map snd fs).
 Proof. induction fs as [|[p ft] r IH]; [reflexivity|]. cbn [map snd existsb]. rewrite IH. reflexivity. Qed.
 
 Fixpoint n_expl (T: ty) : nat := match T with TExp _ x => S (n_expl x) | TImp _ x => n_expl x | _ => O end.
@@ -1415,16 +1415,48 @@ Proof.
       inversion H; subst; rewrite app_length; cbn [length]; lia.
 Qed.
 
-(* CV T k n: n is the element at which k tags of T's tag set have been met; the remaining EXPLICIT
-   wrappers lead to the base element n0 *)
-Definition CV (T: ty) (k: nat) (n: node) : Prop :=
-  exists j n0, chain j n n0 /\ (k + j = length (tagset_of' T))%nat /\ gshape (base_of T) n0 = true.
+(* CV T ts n: n is the element at which the tags ts (innermost first) of T's tag set have been met; the
+   remaining EXPLICIT wrappers lead to the base element n0; the outermost tag met is T's outermost *)
+Definition dtag : tag := mkTag Univ false 0.
+Definition last_ok (ts: tagset) (T: ty) : Prop := tag_eqb (last ts dtag) (last (tagset_of' T) dtag) = true.
+Definition CV (T: ty) (ts: tagset) (n: node) : Prop :=
+  exists j n0, chain j n n0 /\ (length ts + j = length (tagset_of' T))%nat /\ gshape (base_of T) n0 = true /\ last_ok ts T.
 
-Lemma CV_gshape T n : plain T = true -> CV T 1 n -> gshape T n = true.
+Lemma cls_eqb_class_no a b : cls_eqb a b = true -> N.eqb (class_no a) (class_no b) = true.
+Proof. destruct a, b; cbn; intros; try discriminate; reflexivity. Qed.
+
+Lemma tag_eqb_pair t c f n : tag_eqb t (mkTag c f n) = true -> tag_pair_eqb (tcls t, tnum t) (c, n) = true.
 Proof.
-  intros Hp (j & n0 & Hc & Hl & Hg). apply (gshape_chain T n n0); [|exact Hg].
-  unfold tagset_of' in Hl. destruct (tagset_of T) as [ts|] eqn:E; [|cbn in Hl; lia].
-  rewrite (tagset_len _ _ Hp E) in Hl. replace (n_expl T) with j by lia. exact Hc.
+  unfold tag_eqb, tag_pair_eqb. cbn [tcls tnum fst snd]. intros H. apply andb_prop in H. destruct H as [H1 H2].
+  rewrite (cls_eqb_class_no _ _ H1), H2. reflexivity.
+Qed.
+
+(* the outermost tag of a type's tag set is the tag its encodings start with *)
+Lemma last_may_start T t : plain T = true -> tagset_of' T <> [] ->
+  tag_eqb t (last (tagset_of' T) dtag) = true -> may_start T (tcls t, tnum t) = true.
+Proof.
+  intros Hp Hne H. unfold may_start.
+  destruct T; try discriminate;
+    try (cbn in H; cbn [first_tags existsb]; rewrite (tag_eqb_pair _ _ _ _ H); reflexivity).
+  - (* IMPLICIT *) cbn [first_tags existsb]. unfold tagset_of' in *. cbn [tagset_of] in *.
+    destruct (tagset_of T) as [ts'|]; cbn [bind] in *; [|congruence].
+    unfold tag_implicitly in H. destruct (rev ts') as [|l0 r].
+    + cbn in H. destruct t0 as [c0 f0 n0]. cbn [tcls tnum]. rewrite (tag_eqb_pair _ _ _ _ H). reflexivity.
+    + rewrite last_last in H. rewrite (tag_eqb_pair _ _ _ _ H). reflexivity.
+  - (* EXPLICIT *) cbn [first_tags existsb]. unfold tagset_of' in *. cbn [tagset_of] in *.
+    destruct (tagset_of T) as [ts'|]; cbn [bind] in *; [|congruence].
+    unfold tag_explicitly in *. destruct (tcls t0) eqn:Ec; [congruence| | |];
+      rewrite last_last in H; rewrite (tag_eqb_pair _ _ _ _ H); reflexivity.
+Qed.
+
+Lemma CV_gshape T t n : plain T = true -> CV T [t] n -> gshape T n = true /\ may_start T (tcls t, tnum t) = true.
+Proof.
+  intros Hp (j & n0 & Hc & Hl & Hg & Hlast). split.
+  - apply (gshape_chain T n n0); [|exact Hg].
+    unfold tagset_of' in Hl. destruct (tagset_of T) as [ts|] eqn:E; [|cbn in Hl; lia].
+    rewrite (tagset_len _ _ Hp E) in Hl. cbn [length] in Hl. replace (n_expl T) with j by lia. exact Hc.
+  - apply last_may_start; [exact Hp| |exact Hlast].
+    intros E. rewrite E in Hl. cbn [length] in Hl. lia.
 Qed.
 
 Definition plainmap (m: tmap) : Prop :=
@@ -1433,8 +1465,8 @@ Definition sp_plain (sp: spec) : Prop :=
   match sp with STy T => plain T = true | SMap m => plainmap m | SNone => True end.
 Definition cand (sp: spec) (T': ty) : Prop :=
   match sp with STy T => T' = T | SMap m => In T' (map snd (tm_present m)) | SNone => False end.
-Definition claim (sp: spec) (k: nat) (n: node) : Prop :=
-  match sp with SNone => True | _ => sp_plain sp -> exists T', cand sp T' /\ plain T' = true /\ CV T' k n end.
+Definition claim (sp: spec) (ts: tagset) (n: node) : Prop :=
+  match sp with SNone => True | _ => sp_plain sp -> exists T', cand sp T' /\ plain T' = true /\ CV T' ts n end.
 
 Lemma tagmap_plain T : plain T = true -> tagmap_of T = mkTmap [(tagset_of' T, T)] [] None false.
 Proof. destruct T; try reflexivity; discriminate. Qed.
@@ -1519,83 +1551,99 @@ Proof.
   apply andb_prop in H. destruct H as [_ H]. cbn [length]. f_equal. apply IH. exact H.
 Qed.
 
-Lemma sel_guided sp ts cd fl spT : sel DER sp ts = Ok (Some (cd, fl, spT)) -> sp_plain sp -> sp <> SNone ->
-  exists T', spT = Some T' /\ plain T' = true /\ by_type DER T' = Some (cd, fl)
-             /\ length ts = length (tagset_of' T') /\ cand sp T'.
+Lemma sel_guided_gen c sp ts cd fl spT : sel c sp ts = Ok (Some (cd, fl, spT)) -> sp_plain sp -> sp <> SNone ->
+  exists T', spT = Some T' /\ plain T' = true /\ by_type c T' = Some (cd, fl)
+             /\ tagset_eqb ts (tagset_of' T') = true /\ cand sp T'.
 Proof.
   intros H Hp Hne. destruct sp as [|T|m]; [congruence| |]; cbn [sel sp_plain cand] in *.
   - destruct (tagset_eqb ts (tagset_of' T) || tm_contains (tagmap_of T) ts)%bool eqn:Em; [|discriminate].
     destruct (tm_postponed (tagmap_of T)); [discriminate|].
-    destruct (by_type DER T) as [[cd0 fl0]|] eqn:E; [|discriminate]. inversion H; subst; clear H.
+    destruct (by_type c T) as [[cd0 fl0]|] eqn:E; [|discriminate]. inversion H; subst; clear H.
     exists T. split; [reflexivity|]. split; [exact Hp|]. split; [exact E|]. split; [|reflexivity].
-    apply tagset_eqb_len. destruct (tagset_eqb ts (tagset_of' T)) eqn:Et; [reflexivity|].
+    destruct (tagset_eqb ts (tagset_of' T)) eqn:Et; [reflexivity|].
     cbn [orb] in Em. rewrite (tagmap_plain _ Hp) in Em. unfold tm_contains, tm_find in Em.
     cbn [tm_present tm_default assoc] in Em. rewrite Et in Em. discriminate.
   - destruct (tm_get m ts) as [[T|]|e] eqn:Eg; try discriminate.
-    destruct (by_type DER T) as [[cd0 fl0]|] eqn:E; [|discriminate]. inversion H; subst; clear H.
+    destruct (by_type c T) as [[cd0 fl0]|] eqn:E; [|discriminate]. inversion H; subst; clear H.
     destruct Hp as [Hd Hpr]. unfold tm_get in Eg. destruct (tm_postponed m); [discriminate|].
     unfold tm_find in Eg. destruct (assoc tagset_eqb ts (tm_present m)) as [T0|] eqn:Ea; [|rewrite Hd in Eg; discriminate].
     inversion Eg; subst; clear Eg. apply assoc_in in Ea. destruct Ea as (k & Hi & Hk).
     rewrite Forall_forall in Hpr. destruct (Hpr _ Hi) as [HpT Hkk]. cbn [fst snd] in *. subst k.
-    exists T. split; [reflexivity|]. split; [exact HpT|]. split; [exact E|]. split; [apply tagset_eqb_len; exact Hk|].
+    exists T. split; [reflexivity|]. split; [exact HpT|]. split; [exact E|]. split; [exact Hk|].
     apply in_map_iff. exists (tagset_of' T, T). auto.
 Qed.
 
-Lemma claim_intro sp k n :
-  (sp <> SNone -> sp_plain sp -> exists T', cand sp T' /\ plain T' = true /\ CV T' k n) -> claim sp k n.
+Lemma sel_guided sp ts cd fl spT : sel DER sp ts = Ok (Some (cd, fl, spT)) -> sp_plain sp -> sp <> SNone ->
+  exists T', spT = Some T' /\ plain T' = true /\ by_type DER T' = Some (cd, fl)
+             /\ tagset_eqb ts (tagset_of' T') = true /\ cand sp T'.
+Proof. apply sel_guided_gen. Qed.
+
+Lemma claim_intro sp ts n :
+  (sp <> SNone -> sp_plain sp -> exists T', cand sp T' /\ plain T' = true /\ CV T' ts n) -> claim sp ts n.
 Proof. intros H. destruct sp as [|T|m]; [exact I| |]; intros Hp; apply H; try discriminate; exact Hp. Qed.
 
-Lemma claim_match sp (ts: tagset) T' node : cand sp T' -> plain T' = true -> length ts = length (tagset_of' T') ->
-  gshape (base_of T') node = true -> exists T', cand sp T' /\ plain T' = true /\ CV T' (length ts) node.
+Lemma tagset_eqb_last : forall a b, tagset_eqb a b = true -> tag_eqb (last a dtag) (last b dtag) = true.
+Proof.
+  unfold tagset_eqb. induction a as [|x a IH]; destruct b as [|y b]; cbn [list_eqb]; intros H; try discriminate; [reflexivity|].
+  apply andb_prop in H. destruct H as [Hxy H]. specialize (IH _ H).
+  destruct a as [|x2 a]; destruct b as [|y2 b]; cbn [list_eqb] in H; try discriminate; [exact Hxy|exact IH].
+Qed.
+
+Lemma claim_match sp (ts: tagset) T' node : cand sp T' -> plain T' = true -> tagset_eqb ts (tagset_of' T') = true ->
+  gshape (base_of T') node = true -> exists T', cand sp T' /\ plain T' = true /\ CV T' ts node.
 Proof.
   intros Hc Hp Hl Hg. exists T'. split; [exact Hc|]. split; [exact Hp|].
-  exists O, node. split; [reflexivity|]. split; [lia|exact Hg].
+  exists O, node. split; [reflexivity|]. split; [rewrite (tagset_eqb_len _ _ Hl); lia|]. split; [exact Hg|].
+  exact (tagset_eqb_last _ _ Hl).
 Qed.
 
 Definition kid_claims (spT: option ty) (kids: list node) : Prop :=
-  Forall (fun k => exists sp', child_spec spT sp' /\ claim sp' 1 k) kids.
+  Forall (fun k => exists sp' t, child_spec spT sp' /\ node_tag k = (tcls t, tnum t) /\ claim sp' [t] k) kids.
 
 Lemma kids_listof T' t kids : (base_of T' = TSeqOf t \/ base_of T' = TSetOf t) -> plain t = true ->
   kid_claims (Some T') kids -> forallb (gshape t) kids = true.
 Proof.
   intros Hb Hp Hk. apply forallb_forall. intros k Hin. unfold kid_claims in Hk. rewrite Forall_forall in Hk.
-  destruct (Hk _ Hin) as (sp' & Hc & Hcl). unfold child_spec in Hc.
+  destruct (Hk _ Hin) as (sp' & tk & Hc & Htag & Hcl). unfold child_spec in Hc.
   assert (sp' = STy t) by (destruct Hb as [E|E]; rewrite E in Hc; exact Hc). subst sp'.
-  destruct (Hcl Hp) as (T'' & -> & _ & HCV). exact (CV_gshape _ _ Hp HCV).
+  destruct (Hcl Hp) as (T'' & -> & _ & HCV). exact (proj1 (CV_gshape _ _ _ Hp HCV)).
 Qed.
 
 Lemma kids_record T' fs kids : (base_of T' = TSeq fs \/ base_of T' = TSet fs) -> forallb plain (map snd fs) = true ->
   fs <> [] -> kid_claims (Some T') kids ->
-  forallb (fun k => existsb (fun ft => gshape ft k) (map snd fs)) kids = true.
+  forallb (fun k => existsb (fun ft => may_start ft (node_tag k) && gshape ft k) (map snd fs)) kids = true.
 Proof.
   intros Hb Hp Hne Hk. apply forallb_forall. intros k Hin. unfold kid_claims in Hk. rewrite Forall_forall in Hk.
-  destruct (Hk _ Hin) as (sp' & Hc & Hcl). unfold child_spec in Hc.
+  destruct (Hk _ Hin) as (sp' & tk & Hc & Htag & Hcl). unfold child_spec in Hc.
   assert (Hc': (fs = [] /\ sp' = SNone) \/ (exists f, In f (map snd fs) /\ sp' = STy f)
                \/ (exists u fs', incl fs' (map snd fs) /\ sp' = SMap (fields_tagmap u fs')))
     by (destruct Hb as [E|E]; rewrite E in Hc; exact Hc).
-  apply existsb_exists.
+  apply existsb_exists. rewrite Htag.
   destruct Hc' as [[E _]|[(f & Hf & ->)|(u & fs' & Hinc & ->)]]; [congruence| |].
-  - pose proof (in_fields_no_any) as _. assert (Hpf: plain f = true) by (rewrite forallb_forall in Hp; exact (Hp _ Hf)).
-    destruct (Hcl Hpf) as (T'' & -> & _ & HCV). exists f. split; [exact Hf|exact (CV_gshape _ _ Hpf HCV)].
+  - assert (Hpf: plain f = true) by (rewrite forallb_forall in Hp; exact (Hp _ Hf)).
+    destruct (Hcl Hpf) as (T'' & -> & _ & HCV). exists f. split; [exact Hf|].
+    destruct (CV_gshape _ _ _ Hpf HCV) as [G1 G2]. rewrite G1, G2. reflexivity.
   - assert (Hp': forallb plain fs' = true) by (apply forallb_forall; intros x Hx; rewrite forallb_forall in Hp; exact (Hp _ (Hinc _ Hx))).
     destruct (fields_tagmap_plain u fs' Hp') as [Hpm Hrange].
     destruct (Hcl Hpm) as (T'' & Hcand & HpT & HCV). cbn [cand] in Hcand.
     apply in_map_iff in Hcand. destruct Hcand as (kt & <- & Hkt). rewrite Forall_forall in Hrange.
-    exists (snd kt). split; [exact (Hinc _ (Hrange _ Hkt))|exact (CV_gshape _ _ HpT HCV)].
+    exists (snd kt). split; [exact (Hinc _ (Hrange _ Hkt))|].
+    destruct (CV_gshape _ _ _ HpT HCV) as [G1 G2]. rewrite G1, G2. reflexivity.
 Qed.
 
-Definition GD (sp: spec) (acc: tagset) (used: bytes) (n: node) (q: bool) : Prop := claim sp (S (length acc)) n.
+Definition GD (sp: spec) (acc: tagset) (used: bytes) (n: node) (q: bool) : Prop :=
+  exists t, node_tag n = (tcls t, tnum t) /\ claim sp (t :: acc) n.
 Definition GV (sp: spec) (ts: tagset) (body: bytes) (ct: content) (q: bool) : Prop :=
-  forall c num raw, claim sp (length ts) (mk_node c num body ct raw).
+  forall c num raw, claim sp ts (mk_node c num body ct raw).
 Definition GF (A: spec -> Prop) (body: bytes) (kids: list node) (q: bool) : Prop :=
-  Forall (fun k => exists sp', A sp' /\ claim sp' 1 k) kids.
+  Forall (fun k => exists sp' t, A sp' /\ node_tag k = (tcls t, tnum t) /\ claim sp' [t] k) kids.
 
 Lemma forallb_ext' {X} (f g: X -> bool) : (forall x, f x = g x) -> forall l, forallb f l = forallb g l.
 Proof. intros H. induction l as [|x r IH]; [reflexivity|]. cbn [forallb]. rewrite H, IH. reflexivity. Qed.
 
 Lemma gshape_seq fs n : gshape (TSeq fs) n =
   match n with
-  | Cons _ _ false kids _ => match fs with [] => true | _ => forallb (fun k => existsb (fun ft => gshape ft k) (map snd fs)) kids end
+  | Cons _ _ false kids _ => match fs with [] => true | _ => forallb (fun k => existsb (fun ft => may_start ft (node_tag k) && gshape ft k) (map snd fs)) kids end
   | _ => false
   end.
 Proof.
@@ -1604,7 +1652,7 @@ Proof.
 Qed.
 Lemma gshape_set fs n : gshape (TSet fs) n =
   match n with
-  | Cons _ _ false kids _ => match fs with [] => true | _ => forallb (fun k => existsb (fun ft => gshape ft k) (map snd fs)) kids end
+  | Cons _ _ false kids _ => match fs with [] => true | _ => forallb (fun k => existsb (fun ft => may_start ft (node_tag k) && gshape ft k) (map snd fs)) kids end
   | _ => false
   end.
 Proof.
@@ -1621,7 +1669,8 @@ Theorem derivation_gshape :
   /\ (forall A body kids q, F A body kids q -> GF A body kids q).
 Proof.
   apply DVF_ind.
-  - intros sp acc ib lb body t l ct qv Hid Hdl Hlen HV IHV. exact (IHV (tcls t) (tnum t) _).
+  - intros sp acc ib lb body t l ct qv Hid Hdl Hlen HV IHV. exists t. split; [destruct ct; reflexivity|].
+    exact (IHV (tcls t) (tnum t) _).
   - (* bool *)
     intros sp ts fl spT body Hsel Hb c num raw. apply claim_intro; intros Hne Hpl;
       (destruct (sel_guided _ _ _ _ _ Hsel Hpl Hne) as (T' & _ & HpT & Hby & Hl & Hc);
@@ -1672,8 +1721,12 @@ Proof.
     + cbn [plain] in Hpb. cbn [gshape]. apply (kids_listof T' t kids); [right; exact Eb|exact Hpb|exact IHF].
   - (* explicit *)
     intros sp ts body n q Hsel Hex HD IHD c num raw. unfold GD in IHD. cbn [mk_node].
-    destruct sp as [|T|m]; [exact I| |]; intros Hpl; destruct (IHD Hpl) as (T' & Hc & HpT & j & n0 & Hch & Hl & Hg);
-      exists T'; (split; [exact Hc|]); (split; [exact HpT|]); exists (S j), n0; (split; [exact Hch|]); (split; [cbn [length] in Hl; lia|exact Hg]).
+    destruct IHD as (t1 & Htag1 & IHD).
+    assert (Hlast: forall T', last_ok (t1 :: ts) T' -> last_ok ts T').
+    { intros T' Hx. unfold last_ok in *. destruct ts as [|t0 r]; [discriminate|]. exact Hx. }
+    destruct sp as [|T|m]; [exact I| |]; intros Hpl; destruct (IHD Hpl) as (T' & Hc & HpT & j & n0 & Hch & Hl & Hg & Hlo);
+      exists T'; (split; [exact Hc|]); (split; [exact HpT|]); exists (S j), n0; (split; [exact Hch|]);
+      (split; [cbn [length] in Hl; lia|]); (split; [exact Hg|exact (Hlast _ Hlo)]).
   - (* choice: not a plain type *)
     intros sp ts fl T alts body n q Hsel Hb Htg HD IHD c num raw.
     apply claim_intro; intros Hne Hpl.
@@ -1684,7 +1737,8 @@ Proof.
     destruct (sel_guided _ _ _ _ _ Hsel Hpl Hne) as (T' & E & HpT & _). inversion E; subst T'.
     apply plain_base in HpT. rewrite Hb in HpT. discriminate.
   - intros A. constructor.
-  - intros A sp u n q rest ns qs HA Hok HD IHD HF IHF. constructor; [|exact IHF]. exists sp. split; [exact HA|exact IHD].
+  - intros A sp u n q rest ns qs HA Hok HD IHD HF IHF. constructor; [|exact IHF].
+    destruct IHD as (t & Htag & Hcl). exists sp, t. auto.
 Qed.
 
 Lemma plain_no_any : forall T, plain T = true -> no_any T = true.
@@ -1712,8 +1766,8 @@ Proof.
   intros T b d tl Hwf Hp H.
   destruct (decode_der_derivation (Some T) b d tl (plain_no_any _ Hp) H) as (used & n & q & Hb & HD).
   cbn [guide] in HD. exists used, n, q. split; [exact Hb|]. split; [exact HD|]. split; [|split].
-  - destruct derivation_gshape as [H1 _]. pose proof (H1 _ _ _ _ _ HD) as Hc. unfold GD in Hc. cbn [claim length] in Hc.
-    destruct (Hc Hp) as (T' & -> & _ & HCV). exact (CV_gshape _ _ Hp HCV).
+  - destruct derivation_gshape as [H1 _]. destruct (H1 _ _ _ _ _ HD) as (t & Htag & Hc). cbn [claim] in Hc.
+    destruct (Hc Hp) as (T' & -> & _ & HCV). exact (proj1 (CV_gshape _ _ _ Hp HCV)).
   - destruct derivation_definite as [H1 _]. exact (H1 _ _ _ _ _ HD).
   - destruct derivation_parse as [H1 _]. unfold X690.parse. rewrite Hb.
     unfold wf_bytes in Hwf. rewrite Hb in Hwf. apply wf_app in Hwf. destruct Hwf as [Hwu _].
@@ -1810,7 +1864,7 @@ Proof.
     { cbn [by_tag]. rewrite Hk. destruct Hc as [-> | ->]; eexists; vm_compute; reflexivity. }
     destruct Hb1 as (fl & Hb1). cbn [sel firstn].
     destruct acc as [|t2 r]; [rewrite Hb1; eauto|].
-    cbn [by_tag]. rewrite Hb1. eauto.
+    replace (by_tag c (t :: t2 :: r)) with (@None (dec_codec * dec_flags)) by reflexivity. rewrite Hb1. eauto.
 Qed.
 
 (* The CER and DER decoders: wherever the dispatcher meets a BOOLEAN - at top level or inside any
@@ -1846,3 +1900,1213 @@ Example boolean_strict_everywhere_ex :
 Proof. vm_compute. repeat split; try (eexists; reflexivity). Qed.
 
 Print Assumptions boolean_strict_everywhere.
+
+(* ====================================================================== *)
+(* 10. The CER decoder: BOOLEAN at every depth, definite and indefinite      *)
+(* ====================================================================== *)
+(* Guiding types built from BOOLEAN, INTEGER, ENUMERATED, NULL, OID, REAL, SEQUENCE / SET (with members,
+   any presence), SEQUENCE OF / SET OF and any tagging.  String types are left out: inside a constructed
+   string the CER decoder hands unknown fragments to a raw collector and inspects nothing; so are ANY
+   (opaque) and CHOICE. *)
+Fixpoint cplain (T: ty) : bool :=
+  match T with
+  | TAny | TChoice _ | TBits | TOcts | TStr _ => false
+  | TImp _ x | TExp _ x => cplain x
+  | TSeqOf t | TSetOf t => cplain t
+  | TSeq fs | TSet fs =>
+      match fs with
+      | [] => false
+      | _ => (fix go (l: list (presence * ty)) : bool := match l with [] => true | f :: r => cplain (snd f) && go r end) fs
+      end
+  | _ => true
+  end.
+Lemma cplain_fields fs : (fix go (l: list (presence * ty)) : bool := match l with [] => true | f :: r => cplain (snd f) && go r end) fs = forallb cplain (map snd fs).
+Proof. induction fs as [|f r IH]; [reflexivity|]. cbn [map forallb]. rewrite IH. reflexivity. Qed.
+Lemma cplain_base T : cplain T = true -> cplain (base_of T) = true.
+Proof. induction T; cbn [cplain base_of]; auto. Qed.
+
+Lemma cplain_plain_fields (fs: list (presence * ty)) :
+  Forall (fun f => cplain (snd f) = true -> plain (snd f) = true) fs ->
+  forallb cplain (map snd fs) = true -> forallb plain (map snd fs) = true.
+Proof.
+  intros IH. induction IH as [|f r Hf Hr IHr]; [reflexivity|]. cbn [map forallb]. intros H.
+  apply andb_prop in H. destruct H as [H1 H2]. rewrite (Hf H1), (IHr H2). reflexivity.
+Qed.
+
+Lemma cplain_plain : forall T, cplain T = true -> plain T = true.
+Proof.
+  induction T as [| | | | | | | | n|fs IH|fs IH|t IH|t IH|alts IH| |tg x IH|tg x IH] using ty_ind'; cbn [plain cplain]; auto.
+  - rewrite plain_fields, cplain_fields. destruct fs as [|f0 fr]; [discriminate|]. apply cplain_plain_fields. exact IH.
+  - rewrite plain_fields, cplain_fields. destruct fs as [|f0 fr]; [discriminate|]. apply cplain_plain_fields. exact IH.
+Qed.
+
+Definition cmap_ok (m: tmap) : Prop :=
+  tm_default m = None /\ Forall (fun kt => cplain (snd kt) = true) (tm_present m).
+Definition cspec_ok (sp: spec) : Prop :=
+  match sp with SNone => False | STy T => cplain T = true | SMap m => cmap_ok m end.
+
+Lemma fields_tagmap_cok u fs : forallb cplain fs = true -> cmap_ok (fields_tagmap u fs).
+Proof.
+  intros Hp. unfold fields_tagmap.
+  destruct (combine_maps_forall u (fun kt => cplain (snd kt) = true) (map (fun t => (tagmap_of t, t)) fs) empty_tmap) as [H1 H2].
+  - intros m T kt Hi Hk. apply in_map_iff in Hi. destruct Hi as (t & Ht & Hi). inversion Ht; subst; clear Ht.
+    rewrite forallb_forall in Hp. exact (Hp _ Hi).
+  - intros m T Hi. apply in_map_iff in Hi. destruct Hi as (t & Ht & Hi). inversion Ht; subst; clear Ht.
+    rewrite forallb_forall in Hp. rewrite (tagmap_plain _ (cplain_plain _ (Hp _ Hi))). reflexivity.
+  - constructor.
+  - reflexivity.
+  - split; assumption.
+Qed.
+
+(* the CER tables on these types *)
+Lemma by_type_cer_kind T cd fl : cplain T = true -> by_type CER T = Some (cd, fl) ->
+  match base_of T with
+  | TBool => cd = DcBoolCer
+  | TSeq _ | TSet _ | TSeqOf _ | TSetOf _ => container_cd cd = true
+  | _ => simple_cd cd = true /\ cd <> DcBoolBer
+  end.
+Proof.
+  intros Hp H. apply cplain_base in Hp. pose proof (base_not_wrapper T) as Hw.
+  unfold by_type, tag_fallback_key, key_of in H.
+  destruct (base_of T); try discriminate; try (destruct Hw; fail);
+    vm_compute in H; inversion H; subst; try reflexivity; split; try reflexivity; discriminate.
+Qed.
+
+Lemma sel_cer sp ts cd fl spT : cspec_ok sp -> sel CER sp ts = Ok (Some (cd, fl, spT)) ->
+  exists T', spT = Some T' /\ cplain T' = true /\ by_type CER T' = Some (cd, fl).
+Proof.
+  intros Hok H. destruct sp as [|T|m]; [destruct Hok| |]; cbn [sel cspec_ok] in *.
+  - destruct (tagset_eqb ts (tagset_of' T) || tm_contains (tagmap_of T) ts)%bool; [|discriminate].
+    destruct (tm_postponed (tagmap_of T)); [discriminate|].
+    destruct (by_type CER T) as [[cd0 fl0]|] eqn:E; [|discriminate]. inversion H; subst. eauto.
+  - destruct (tm_get m ts) as [[T|]|e] eqn:Eg; try discriminate.
+    destruct (by_type CER T) as [[cd0 fl0]|] eqn:E; [|discriminate]. inversion H; subst.
+    exists T. split; [reflexivity|]. split; [|exact E].
+    destruct Hok as [Hd Hpr]. unfold tm_get in Eg. destruct (tm_postponed m); [discriminate|].
+    unfold tm_find in Eg. destruct (assoc tagset_eqb ts (tm_present m)) as [T0|] eqn:Ea; [|rewrite Hd in Eg; discriminate].
+    inversion Eg; subst. apply assoc_in in Ea. destruct Ea as (k & Hi & _). rewrite Forall_forall in Hpr. exact (Hpr _ Hi).
+Qed.
+
+(* ---------- the derivation for CER: definite and indefinite elements ---------- *)
+Definition is_none {X} (o: option X) : bool := match o with None => true | Some _ => false end.
+
+Inductive E : spec -> tagset -> bytes -> node -> bool -> Prop :=
+| E_def : forall sp acc ib lb body t l ct qv,
+    (forall x, dec_ident (ib ++ x) = Some (t, x)) ->
+    (forall x, dec_len (lb ++ x) = Some (Some l, x)) ->
+    N.of_nat (length body) = l ->
+    W sp (t :: acc) false body ct qv ->
+    E sp acc (ib ++ lb ++ body) (mk_node (tcls t) (tnum t) body ct (ib ++ lb ++ body)) (N.eqb (hd 0 lb) 255 || qv)
+| E_indef : forall sp acc ib body t kids qv,
+    (forall x, dec_ident (ib ++ x) = Some (t, x)) ->
+    W sp (t :: acc) true body (CKids kids) qv ->
+    E sp acc (ib ++ [128] ++ body ++ [0; 0])
+      (Cons (tcls t) (tnum t) true kids (ib ++ [128] ++ body ++ [0; 0])) qv
+with W : spec -> tagset -> bool -> bytes -> content -> bool -> Prop :=
+| W_bool : forall sp ts fl spT body,
+    sel CER sp ts = Ok (Some (DcBoolCer, fl, spT)) -> body = [0] \/ body = [255] ->
+    W sp ts false body CPrim (tag0_cons ts)
+| W_simple : forall sp ts cd fl spT body,
+    sel CER sp ts = Ok (Some (cd, fl, spT)) -> simple_cd cd = true -> cd <> DcBoolBer -> tag0_simple ts = true ->
+    W sp ts false body CPrim false
+| W_container : forall sp ts indef cd fl spT body kids q,
+    sel CER sp ts = Ok (Some (cd, fl, spT)) -> container_cd cd = true -> tag0_cons ts = true ->
+    FE (child_spec spT) [] indef body kids q ->
+    W sp ts indef body (CKids kids) q
+| W_explicit : forall sp ts body n q,
+    sel CER sp ts = Ok None -> explicit_tag ts = true ->
+    E sp ts body n q ->
+    W sp ts false body (CKids [n]) q
+| W_explicit_indef : forall sp ts body kids q,
+    (* an indefinite-length EXPLICIT wrapper: the decoder takes elements until the end-of-contents
+       octets and keeps the last *)
+    sel CER sp ts = Ok None -> explicit_tag ts = true -> kids <> [] ->
+    FE (fun sp' => sp' = sp) ts true body kids q ->
+    W sp ts true body (CKids kids) q
+with FE : (spec -> Prop) -> tagset -> bool -> bytes -> list node -> bool -> Prop :=
+| FE_nil : forall A acc indef, FE A acc indef [] [] false
+| FE_cons : forall (A: spec -> Prop) acc indef sp u n q rest ns qs,
+    A sp -> cspec_ok sp -> E sp acc u n q -> (indef = true -> firstn 2 u <> [0; 0]) ->
+    FE A acc indef rest ns qs -> FE A acc indef (u ++ rest) (n :: ns) (q || qs).
+
+Scheme E_ind2 := Minimality for E Sort Prop
+  with W_ind2 := Minimality for W Sort Prop
+  with FE_ind2 := Minimality for FE Sort Prop.
+Combined Scheme EWF_ind from E_ind2, W_ind2, FE_ind2.
+
+Definition ccall_ok (rec: rec_t) : Prop :=
+  forall sp acc allow s d s', cspec_ok sp ->
+    resume (rec sp acc None allow false) s = inr (Ok d, s') ->
+    (d = DEoo /\ allow = true /\ took s s' [0; 0])
+    \/ (d <> DEoo /\ exists u n q, took s s' u /\ E sp acc u n q /\ (allow = true -> firstn 2 u <> [0; 0])).
+
+Lemma create_not_eoo sp proto ts v s d s' : resume (create sp proto ts v) s = inr (Ok d, s') -> d <> DEoo.
+Proof.
+  unfold create.
+  destruct (base_of match sp with Some T => T | None => schemaless_ty proto ts end); destruct v;
+    try (cbn [resume]; intros H; inversion H; discriminate).
+  destruct (str_octets_ok n b) as [[|]|]; cbn [resume]; intros H; inversion H; discriminate.
+Qed.
+
+Lemma dec_integer_not_eoo lf sp proto ts l s d s' :
+  resume (dec_integer lf sp proto ts l) s = inr (Ok d, s') -> d <> DEoo.
+Proof.
+  unfold dec_integer. destruct (tag0_simple ts); cbn [negb]; intros H; [|dead H].
+  binv H b s1 Hb. exact (create_not_eoo _ _ _ _ _ _ _ H).
+Qed.
+Lemma dec_null_not_eoo lf sp ts l s d s' : resume (dec_null lf sp ts l) s = inr (Ok d, s') -> d <> DEoo.
+Proof.
+  unfold dec_null. destruct (tag0_simple ts); cbn [negb]; intros H; [|dead H].
+  binv H b s1 Hb. destruct b; [|dead H]. exact (create_not_eoo _ _ _ _ _ _ _ H).
+Qed.
+Lemma dec_oid_not_eoo lf sp ts l s d s' : resume (dec_oid_v lf sp ts l) s = inr (Ok d, s') -> d <> DEoo.
+Proof.
+  unfold dec_oid_v. destruct (tag0_simple ts); cbn [negb]; intros H; [|dead H].
+  binv H b s1 Hb. binv H a s2 Ha. exact (create_not_eoo _ _ _ _ _ _ _ H).
+Qed.
+Lemma dec_real_not_eoo lf sp ts l s d s' : resume (dec_real_v lf sp ts l) s = inr (Ok d, s') -> d <> DEoo.
+Proof.
+  unfold dec_real_v. destruct (tag0_simple ts); cbn [negb]; intros H; [|dead H].
+  binv H b s1 Hb. binv H a s2 Ha. exact (create_not_eoo _ _ _ _ _ _ _ H).
+Qed.
+Lemma dec_bool_cer_not_eoo lf sp ts l s d s' : resume (dec_bool_cer lf sp ts l) s = inr (Ok d, s') -> d <> DEoo.
+Proof.
+  unfold dec_bool_cer. destruct (N.eqb l 1); cbn [negb]; intros H; [|dead H].
+  binv H b s1 Hb.
+  destruct b as [|o [|o2 r]]; [dead H| |].
+  - destruct (N.eq_dec o 0) as [E0|E0]; [subst o; exact (create_not_eoo _ _ _ _ _ _ _ H)|].
+    destruct (N.eq_dec o 255) as [E1|E1]; [subst o; exact (create_not_eoo _ _ _ _ _ _ _ H)|].
+    exfalso. revert H.
+    change (resume (match o with 0 => create sp TBool ts (VInt 0) | 255 => create sp TBool ts (VInt 1) | _ => Raise EMalformed end) s1 = inr (Ok d, s') -> False).
+    rewrite (strict_octet o _ _ _ _ E0 E1). cbn [resume]. discriminate.
+  - exfalso. revert H.
+    change (resume (match o with 0 => Raise EMalformed | 255 => Raise EMalformed | _ => Raise EMalformed end) s1 = inr (Ok d, s') -> False).
+    destruct (N.eq_dec o 0) as [E0|E0]; [subst o; cbn [resume]; discriminate|].
+    destruct (N.eq_dec o 255) as [E1|E1]; [subst o; cbn [resume]; discriminate|].
+    rewrite (strict_octet o _ _ _ _ E0 E1). cbn [resume]. discriminate.
+Qed.
+
+(* ---------- end-of-contents is answered only where it was asked for ---------- *)
+Definition ne (p: proc dval) : Prop := forall s d s', resume p s = inr (Ok d, s') -> d <> DEoo.
+
+Lemma ne_raise e : ne (Raise e). Proof. intros s d s' H. dead H. Qed.
+Lemma ne_ret d0 : d0 <> DEoo -> ne (Ret d0). Proof. intros Hd s d s' H. cbn [resume] in H. inversion H; subst. exact Hd. Qed.
+Lemma ne_create sp proto ts v : ne (create sp proto ts v).
+Proof. intros s d s' H. exact (create_not_eoo _ _ _ _ _ _ _ H). Qed.
+Lemma ne_bind {X} (p: proc X) (f: X -> proc dval) : (forall x, ne (f x)) -> ne (pbind p f).
+Proof. intros Hf s d s' H. binv H x s1 Hx. exact (Hf x _ _ _ H). Qed.
+Lemma ne_if (b: bool) (p q: proc dval) : ne p -> ne q -> ne (if b then p else q).
+Proof. destruct b; auto. Qed.
+Lemma ne_collector lf len : ne (collector lf len).
+Proof. destruct len; cbn [collector]; apply ne_bind; intros b; apply ne_ret; discriminate. Qed.
+
+Section NoEoo.
+  Variable rec : rec_t.
+  Variable lf : nat.
+  (* the recursive entry point answers end-of-contents only when allowed to *)
+  Hypothesis Hrec : forall sp acc r sfun s d s', resume (rec sp acc r false sfun) s = inr (Ok d, s') -> d <> DEoo.
+
+  Lemma ne_octets_loop proto sp ts len start : forall n acc, ne (octets_loop rec proto sp ts len start n acc).
+  Proof.
+    induction n as [|n IH]; intros acc; [apply ne_raise|]. cbn [octets_loop]. apply ne_bind. intros p.
+    apply ne_if; [|apply ne_create]. apply ne_bind. intros f.
+    destruct f as [T v| |b| |]; try apply ne_raise; [|apply IH]. destruct v; try apply ne_raise. apply IH.
+  Qed.
+  Lemma ne_octets_indef_loop proto sp ts : forall n acc, ne (octets_indef_loop rec proto sp ts n acc).
+  Proof.
+    induction n as [|n IH]; intros acc; [apply ne_raise|]. cbn [octets_indef_loop]. apply ne_bind. intros f.
+    destruct f as [T v| |b| |]; try apply ne_raise; [|apply ne_create|apply IH]. destruct v; try apply ne_raise. apply IH.
+  Qed.
+  Lemma ne_bits_loop sp ts len start : forall n acc, ne (bits_loop rec sp ts len start n acc).
+  Proof.
+    induction n as [|n IH]; intros acc; [apply ne_raise|]. cbn [bits_loop]. apply ne_bind. intros p.
+    apply ne_if; [|apply ne_create]. apply ne_bind. intros f. apply ne_bind. intros acc'. apply IH.
+  Qed.
+  Lemma ne_bits_indef_loop sp ts : forall n acc, ne (bits_indef_loop rec sp ts n acc).
+  Proof.
+    induction n as [|n IH]; intros acc; [apply ne_raise|]. cbn [bits_indef_loop]. apply ne_bind. intros f.
+    destruct f; try apply ne_create; apply ne_bind; intros acc'; apply IH.
+  Qed.
+  Lemma ne_any_indef_loop sp ts sfun tagged : forall n acc, ne (any_indef_loop rec sp ts sfun tagged n acc).
+  Proof.
+    induction n as [|n IH]; intros acc; [apply ne_raise|]. cbn [any_indef_loop]. apply ne_bind. intros f.
+    destruct f as [T v| |b| |]; try apply ne_raise.
+    - destruct v; try apply ne_raise. apply IH.
+    - apply ne_if; [apply ne_ret; discriminate|apply ne_create].
+    - apply IH.
+  Qed.
+  Lemma ne_record_loop T fs is_set len start : forall n idx vs extra, ne (record_loop rec lf T fs is_set len start n idx vs extra).
+  Proof.
+    induction n as [|n IH]; intros idx vs extra; [apply ne_raise|]. cbn [record_loop]. cbv zeta. apply ne_bind. intros p.
+    assert (Hfin: ne (if match fs with [] => true | _ => false end then Ret (DV T (VRec []))
+                      else if required_seen fs vs then Ret (DV T (VRec vs)) else Raise EMalformed)).
+    { repeat apply ne_if; try apply ne_raise; apply ne_ret; discriminate. }
+    apply ne_if; [exact Hfin|].
+    match goal with |- ne (match ?sp with _ => _ end) => destruct sp as [sp'|] end; [|apply ne_raise].
+    apply ne_bind. intros d0. destruct d0 as [Tc vc| |b| |]; try apply ne_raise; [|exact Hfin|].
+    - repeat apply ne_if; try apply ne_raise. apply ne_bind. intros i. apply ne_if; [apply ne_raise|apply IH].
+    - repeat apply ne_if; try apply ne_raise.
+      destruct (nth_error fs idx) as [[p0 ft]|]; [|apply ne_raise]. apply ne_if; [apply IH|apply ne_raise].
+  Qed.
+  Lemma ne_listof_loop T t len start : forall n acc, ne (listof_loop rec T t len start n acc).
+  Proof.
+    induction n as [|n IH]; intros acc; [apply ne_raise|]. cbn [listof_loop]. apply ne_bind. intros p.
+    apply ne_if; [apply ne_ret; discriminate|]. apply ne_bind. intros d0.
+    destruct d0 as [Tc vc| |b| |]; try apply ne_raise; [apply IH|apply ne_ret; discriminate|].
+    apply ne_if; [apply IH|apply ne_raise].
+  Qed.
+  Lemma ne_schemaless_loop is_set ts len start : forall n acc, ne (schemaless_loop rec is_set ts len start n acc).
+  Proof.
+    induction n as [|n IH]; intros acc; [destruct acc as [|[T0 v0] r]; apply ne_raise|].
+    cbn [schemaless_loop]. cbv zeta.
+    assert (Hfin: forall X Y, ne (match acc with [] => Ret (DV X (VList [])) | (T0, _) :: _ => Ret (Y T0) end) -> True) by auto. clear Hfin.
+    apply ne_bind. intros p.
+    apply ne_if; [destruct acc as [|[T0 v0] r]; apply ne_ret; discriminate|].
+    apply ne_bind. intros d0. destruct d0 as [Tc vc| |b| |]; try apply ne_raise; [apply IH|].
+    destruct acc as [|[T0 v0] r]; apply ne_ret; discriminate.
+  Qed.
+  Lemma ne_choice_place T alts d0 : ne (choice_place lf T alts d0).
+  Proof. unfold choice_place. destruct d0; try apply ne_raise. apply ne_bind. intros i. apply ne_ret. discriminate. Qed.
+  Lemma ne_choice_loop T alts ts tagged : forall n cur, (forall x, cur = Some x -> x <> DEoo) -> ne (choice_loop rec lf T alts ts tagged n cur).
+  Proof.
+    induction n as [|n IH]; intros cur Hcur; [apply ne_raise|]. cbn [choice_loop]. cbv zeta. apply ne_bind. intros d0.
+    assert (Hgo: ne (pbind (choice_place lf T alts d0) (fun x => if tagged then choice_loop rec lf T alts ts tagged n (Some x) else Ret x))).
+    { intros s d s' H. binv H x s1 Hx. pose proof (ne_choice_place _ _ _ _ _ _ Hx) as Hxn.
+      destruct tagged; [|cbn [resume] in H; inversion H; subst; exact Hxn].
+      apply (IH (Some x)) in H; [exact H|]. intros y Hy. inversion Hy; subst. exact Hxn. }
+    destruct d0; try exact Hgo.
+    destruct cur as [x|]; [apply ne_ret; apply Hcur; reflexivity|apply ne_ret; discriminate].
+  Qed.
+  Lemma ne_raw_loop sp ts : forall n last, last <> DEoo -> ne (raw_loop rec sp ts n last).
+  Proof.
+    induction n as [|n IH]; intros last Hl; [apply ne_raise|]. cbn [raw_loop]. apply ne_bind. intros d0.
+    destruct d0; try (apply IH; discriminate).
+    destruct last; try apply ne_raise; try (apply ne_ret; discriminate). congruence.
+  Qed.
+
+  Lemma ne_dec_value cd fl spT ts len sfun : ne (dec_value rec lf cd fl spT ts len sfun).
+  Proof.
+    unfold dec_value. cbv zeta.
+    assert (Hcont: forall b, ne (if negb (tag0_cons ts) then Raise EMalformed else
+              if sfun then collector lf len else
+              match spT with
+              | None => dec_schemaless rec lf b ts len
+              | Some T => match base_of T with
+                          | TSeq fs => dec_record rec lf T fs false len
+                          | TSet fs => dec_record rec lf T fs true len
+                          | TSeqOf t | TSetOf t => dec_listof rec lf T t len
+                          | _ => Raise EUnmodelled
+                          end
+              end)).
+    { intros b. apply ne_if; [apply ne_raise|]. apply ne_if; [apply ne_collector|].
+      destruct spT as [T|].
+      - destruct (base_of T); try apply ne_raise.
+        + unfold dec_record. cbv zeta. apply ne_bind. intros p. apply ne_record_loop.
+        + unfold dec_record. cbv zeta. apply ne_bind. intros p. apply ne_record_loop.
+        + unfold dec_listof. apply ne_bind. intros p. apply ne_listof_loop.
+        + unfold dec_listof. apply ne_bind. intros p. apply ne_listof_loop.
+      - unfold dec_schemaless. apply ne_bind. intros p. apply ne_schemaless_loop. }
+    assert (Hocts: forall proto l, ne (dec_octets rec lf proto fl spT ts l sfun)).
+    { intros proto l. unfold dec_octets. apply ne_if; [apply ne_bind; intros b; apply ne_create|].
+      apply ne_if; [apply ne_raise|]. apply ne_bind. intros p. apply ne_octets_loop. }
+    destruct cd; destruct len as [l|]; cbv beta iota; try apply ne_raise; try apply Hcont; try apply Hocts.
+    - intros s d s' H. exact (dec_integer_not_eoo _ _ _ _ _ _ _ _ H).
+    - intros s d s' H. exact (dec_integer_not_eoo _ _ _ _ _ _ _ _ H).
+    - intros s d s' H. exact (dec_bool_cer_not_eoo _ _ _ _ _ _ _ H).
+    - unfold dec_bits. apply ne_if; [apply ne_collector|]. apply ne_if; [apply ne_raise|].
+      apply ne_if.
+      + apply ne_bind. intros tb. apply ne_if; [apply ne_raise|]. apply ne_bind. intros b. apply ne_bind. intros bs. apply ne_create.
+      + apply ne_if; [apply ne_raise|]. apply ne_bind. intros p. apply ne_bits_loop.
+    - unfold dec_bits_indef. apply ne_if; [apply ne_collector|]. apply ne_bits_indef_loop.
+    - unfold dec_octets_indef. apply ne_octets_indef_loop.
+    - intros s d s' H. exact (dec_null_not_eoo _ _ _ _ _ _ _ H).
+    - intros s d s' H. exact (dec_oid_not_eoo _ _ _ _ _ _ _ H).
+    - intros s d s' H. exact (dec_real_not_eoo _ _ _ _ _ _ _ H).
+    - (* choice, definite *)
+      destruct spT as [T|]; [|apply ne_raise]. destruct (base_of T); try apply ne_raise.
+      apply ne_if; [apply ne_collector|]. unfold dec_choice. cbv zeta. apply ne_bind. intros d0. apply ne_choice_place.
+    - destruct spT as [T|]; [|apply ne_raise]. destruct (base_of T); try apply ne_raise.
+      apply ne_if; [apply ne_collector|]. unfold dec_choice. cbv zeta. apply ne_choice_loop. intros x Hx. discriminate.
+    - (* any *)
+      unfold dec_any. cbv zeta. apply ne_bind. intros l'. apply ne_bind. intros b.
+      apply ne_if; [apply ne_ret; discriminate|apply ne_create].
+    - unfold dec_any_indef. cbv zeta. apply ne_bind. intros h. apply ne_any_indef_loop.
+    - unfold dec_octets_indef. apply ne_octets_indef_loop.
+  Qed.
+
+  Lemma ne_run_value len k : ne k -> ne (run_value len k).
+  Proof.
+    intros Hk. destruct len as [l|]; [|exact Hk]. intros s d s' H.
+    apply run_value_inv in H. destruct H as [H _]. exact (Hk _ _ _ H).
+  Qed.
+
+  Lemma ne_dispatch c sp ts len sfun : ne (dispatch c rec lf sp ts len sfun).
+  Proof.
+    rewrite dispatch_sel. destruct (sel c sp ts) as [[[[cd fl] spT]|]|e]; [| |apply ne_raise].
+    - apply ne_run_value. apply ne_dec_value.
+    - apply ne_if; [|apply ne_raise]. apply ne_run_value. unfold dec_raw.
+      apply ne_if; [apply ne_collector|]. destruct len as [l|].
+      + intros s d s' H. exact (Hrec _ _ _ _ _ _ _ H).
+      + apply ne_raw_loop. discriminate.
+  Qed.
+
+  Lemma ne_main c sp acc r sfun :
+    ne (Mark (match r with
+              | Some len => dispatch c rec lf sp acc len sfun
+              | None => let! t := read_tag lf in let! len := read_length c in dispatch c rec lf sp (t :: acc) len sfun
+              end)).
+  Proof.
+    intros s d s' H. cbn [resume] in H. revert H. generalize (setmark s (pos s)). intros s0 H.
+    destruct r as [len|]; [exact (ne_dispatch _ _ _ _ _ _ _ _ H)|].
+    binv H t s1 Ht. binv H len s2 Hl. exact (ne_dispatch _ _ _ _ _ _ _ _ H).
+  Qed.
+End NoEoo.
+
+(* end-of-contents is answered only by the look-ahead of an indefinite-length loop, and costs 00 00 *)
+Theorem eoo_only : forall c fuel sp acc r allow sfun s s',
+  resume (dec_call c fuel sp acc r allow sfun) s = inr (Ok DEoo, s') -> allow = true /\ took s s' [0; 0].
+Proof.
+  intros c. induction fuel as [|f IH]; intros sp acc r allow sfun s s' H; [cbn [dec_call resume] in H; discriminate|].
+  assert (Hrec: forall sp acc r sfun s d s', resume (dec_call c f sp acc r false sfun) s = inr (Ok d, s') -> d <> DEoo).
+  { intros sp0 acc0 r0 sfun0 s0 d0 s0' H0 ->. destruct (IH _ _ _ _ _ _ _ H0) as [Hx _]. discriminate. }
+  cbn [dec_call] in H. unfold dec_body in H.
+  destruct (allow && support_indef c)%bool eqn:Ea.
+  - apply andb_prop in Ea. destruct Ea as [-> _]. split; [reflexivity|].
+    binv H b s1 Hb. apply readN_inv in Hb.
+    assert (Hm: forall s0, resume (SeekBack 2 (Mark (match r with
+              | Some len => dispatch c (dec_call c f) f sp acc len sfun
+              | None => let! t := read_tag f in let! len := read_length c in dispatch c (dec_call c f) f sp (t :: acc) len sfun
+              end))) s0 = inr (Ok DEoo, s') -> False).
+    { intros s0 H0. cbn [resume] in H0. exact (ne_main (dec_call c f) f Hrec c sp acc r sfun _ _ _ H0 eq_refl). }
+    destruct b as [|x r1]; [exfalso; exact (Hm _ H)|]. destruct x; [|exfalso; exact (Hm _ H)].
+    destruct r1 as [|y r2]; [exfalso; exact (Hm _ H)|]. destruct y; [|exfalso; exact (Hm _ H)].
+    destruct r2; [|exfalso; exact (Hm _ H)].
+    apply ret_inv in H. subst. exact Hb.
+  - exfalso. exact (ne_main (dec_call c f) f Hrec c sp acc r sfun _ _ _ H eq_refl).
+Qed.
+
+Section PhaseC.
+  Variable rec : rec_t.
+  Variable lf : nat.
+  Hypothesis Hcall : ccall_ok rec.
+  Hypothesis Heoo : forall sp acc r allow sfun s s',
+    resume (rec sp acc r allow sfun) s = inr (Ok DEoo, s') -> allow = true /\ took s s' [0; 0].
+
+  Definition eoo_tail (len: option N) : bytes := if is_none len then [0; 0] else [].
+
+  (* SEQUENCE OF / SET OF members, definite (until the length is used up) or indefinite (until EOO) *)
+  Lemma c_listof_loop_inv T t len start : cspec_ok (STy t) -> forall n acc s d s',
+    resume (listof_loop rec T t len start n acc) s = inr (Ok d, s') ->
+    d <> DEoo /\ exists u kids q, took s s' (u ++ eoo_tail len) /\ FE (fun sp' => sp' = STy t) [] (is_none len) u kids q.
+  Proof.
+    intros Hok. induction n as [|n IH]; intros acc s d s' H; [dead H|].
+    cbn [listof_loop] in H. cbn [pbind tell resume] in H.
+    destruct (negb match len with Some l => N.ltb (N.of_nat (pos s - start)) l | None => true end) eqn:Econt.
+    - cbn [resume] in H. inversion H; subst. split; [discriminate|].
+      destruct len as [l|]; [|discriminate]. exists [], [], false. split; [apply took_refl|constructor].
+    - binv H d0 s1 Hd0. destruct (Hcall _ _ _ _ _ _ Hok Hd0) as [(-> & Hal & Ht0)|(Hne & u1 & n1 & q1 & Ht1 & HE1 & Hnz)].
+      + cbn [resume] in H. inversion H; subst. split; [discriminate|].
+        destruct len as [l|]; [discriminate|]. exists [], [], false. split; [exact Ht0|constructor].
+      + assert (Hgo: forall acc', resume (listof_loop rec T t len start n acc') s1 = inr (Ok d, s') ->
+                   d <> DEoo /\ exists u kids q, took s s' (u ++ eoo_tail len) /\ FE (fun sp' => sp' = STy t) [] (is_none len) u kids q).
+        { intros acc' H'. destruct (IH _ _ _ _ H') as (Hd & u2 & kids & q2 & Ht2 & HF2). split; [exact Hd|].
+          exists (u1 ++ u2), (n1 :: kids), (q1 || q2)%bool. split; [rewrite <- app_assoc; exact (took_trans _ _ _ _ _ Ht1 Ht2)|].
+          apply (FE_cons _ _ _ (STy t)); [reflexivity|exact Hok|exact HE1| |exact HF2].
+          intros Hi. apply Hnz. destruct len; [discriminate|reflexivity]. }
+        destruct d0 as [Tc vc| |b| |]; try dead H; try congruence.
+        * exact (Hgo _ H).
+        * destruct (is_any t); [exact (Hgo _ H)|dead H].
+  Qed.
+
+  Lemma c_record_spec (fs: list (presence * ty)) (is_set det: bool) (len: option N) idx sp' :
+    fs <> [] -> forallb cplain (map snd fs) = true ->
+    (if match fs with [] => true | _ => false end then (match len with Some _ => Some SNone | None => Some SNone end)
+     else match len with
+          | None => if negb is_set && Nat.leb (length fs) idx then Some SNone
+                    else if is_set then Some (SMap (fields_tagmap true (map snd fs)))
+                    else seq_component_spec fs det idx
+          | Some _ => if is_set then Some (SMap (fields_tagmap true (map snd fs)))
+                      else seq_component_spec fs det idx
+          end) = Some sp' ->
+    (sp' = SNone /\ len = None /\ (negb is_set && Nat.leb (length fs) idx)%bool = true)
+    \/ (rec_child fs sp' /\ cspec_ok sp').
+  Proof.
+    intros Hne Hfs H.
+    assert (Hnf: match fs with [] => true | _ => false end = false) by (destruct fs; [congruence|reflexivity]).
+    rewrite Hnf in H. clear Hnf.
+    assert (Hcore: (if is_set then Some (SMap (fields_tagmap true (map snd fs))) else seq_component_spec fs det idx) = Some sp' ->
+                   rec_child fs sp' /\ cspec_ok sp').
+    { clear H. intros H. destruct is_set.
+      - inversion H; subst. split.
+        + right. right. exists true, (map snd fs). split; [apply incl_refl|reflexivity].
+        + cbn [cspec_ok]. apply fields_tagmap_cok. exact Hfs.
+      - unfold seq_component_spec in H. destruct (nth_error fs idx) as [[p t]|] eqn:En; [|discriminate].
+        pose proof (nth_error_In _ _ En) as Hin. apply (in_map snd) in Hin. cbn [snd] in Hin.
+        destruct (det || is_req p)%bool.
+        + inversion H; subst. split; [right; left; exists t; auto|]. cbn [cspec_ok]. rewrite forallb_forall in Hfs. exact (Hfs _ Hin).
+        + inversion H; subst.
+          assert (Hinc: incl (ambiguous_run (skipn idx fs)) (map snd fs)).
+          { intros x Hx. apply ambiguous_run_incl in Hx. apply in_map_iff in Hx. destruct Hx as (y & Hy & Hx).
+            apply in_map_iff. exists y. split; [exact Hy|exact (skipn_incl _ _ _ Hx)]. }
+          split; [right; right; exists false, (ambiguous_run (skipn idx fs)); auto|].
+          cbn [cspec_ok]. apply fields_tagmap_cok. exact (forallb_incl _ _ _ Hinc Hfs). }
+    destruct len as [l|].
+    - right. exact (Hcore H).
+    - destruct (negb is_set && Nat.leb (length fs) idx)%bool eqn:Ec.
+      + inversion H; subst. left. auto.
+      + right. exact (Hcore H).
+  Qed.
+
+  Lemma c_record_loop_inv T fs is_set len start : fs <> [] -> forallb cplain (map snd fs) = true ->
+    forall n idx vs extra s d s',
+    resume (record_loop rec lf T fs is_set len start n idx vs extra) s = inr (Ok d, s') ->
+    d <> DEoo /\ exists u kids q, took s s' (u ++ eoo_tail len) /\ FE (rec_child fs) [] (is_none len) u kids q.
+  Proof.
+    intros Hfne Hfs. induction n as [|n IH]; intros idx vs extra s d s' H; [dead H|].
+    cbn [record_loop] in H. cbv zeta in H. cbn [pbind tell resume] in H.
+    assert (Hfin: forall s0, resume (if match fs with [] => true | _ => false end then Ret (DV T (VRec []))
+                    else if required_seen fs vs then Ret (DV T (VRec vs)) else Raise EMalformed) s0 = inr (Ok d, s') -> s' = s0 /\ d <> DEoo).
+    { intros s0 H0. destruct fs; [cbn [resume] in H0; inversion H0; subst; split; [reflexivity|discriminate]|].
+      destruct (required_seen (p :: fs) vs); [cbn [resume] in H0; inversion H0; subst; split; [reflexivity|discriminate]|dead H0]. }
+    destruct (negb match len with Some l => N.ltb (N.of_nat (pos s - start)) l | None => true end) eqn:Econt.
+    - apply Hfin in H. destruct H as [-> Hd]. split; [exact Hd|].
+      destruct len as [l|]; [|discriminate]. exists [], [], false. split; [apply took_refl|constructor].
+    - match type of H with resume (match ?sp with _ => _ end) _ = _ => destruct sp as [sp'|] eqn:Esp end; [|dead H].
+      apply c_record_spec in Esp; [|exact Hfne|exact Hfs].
+      binv H d0 s1 Hd0.
+      destruct Esp as [(-> & -> & Hpast)|[Hch Hok]].
+      + (* past the last member of an indefinite SEQUENCE: only end-of-contents goes on *)
+        destruct d0 as [Tc vc| |b| |]; try dead H.
+        * destruct fs as [|f fs']; [dead H|]. rewrite Hpast in H. dead H.
+        * destruct (Heoo _ _ _ _ _ _ _ Hd0) as [_ Ht0]. apply Hfin in H. destruct H as [-> Hd]. split; [exact Hd|].
+          exists [], [], false. split; [exact Ht0|constructor].
+        * destruct fs as [|f fs']; [dead H|].
+          apply andb_prop in Hpast. destruct Hpast as [_ Hleb]. apply Nat.leb_le in Hleb.
+          assert (Hnth: nth_error (f :: fs') idx = None) by (apply nth_error_None; exact Hleb).
+          rewrite Hnth in H. match type of H with resume (if ?c then _ else _) _ = _ => destruct c end; dead H.
+      + destruct (Hcall _ _ _ _ _ _ Hok Hd0) as [(-> & Hal & Ht0)|(Hne & u1 & n1 & q1 & Ht1 & HE1 & Hnz)].
+        * apply Hfin in H. destruct H as [-> Hd]. split; [exact Hd|].
+          destruct len as [l|]; [discriminate|]. exists [], [], false. split; [exact Ht0|constructor].
+        * assert (Hgo: forall idx' vs' s2, s2 = s1 -> resume (record_loop rec lf T fs is_set len start n idx' vs' extra) s2 = inr (Ok d, s') ->
+                   d <> DEoo /\ exists u kids q, took s s' (u ++ eoo_tail len) /\ FE (rec_child fs) [] (is_none len) u kids q).
+          { intros idx' vs' s2 -> H'. destruct (IH _ _ _ _ _ _ H') as (Hd & u2 & kids & q2 & Ht2 & HF2). split; [exact Hd|].
+            exists (u1 ++ u2), (n1 :: kids), (q1 || q2)%bool. split; [rewrite <- app_assoc; exact (took_trans _ _ _ _ _ Ht1 Ht2)|].
+            apply (FE_cons _ _ _ sp'); [exact Hch|exact Hok|exact HE1| |exact HF2].
+            intros Hi. apply Hnz. destruct len; [discriminate|reflexivity]. }
+          destruct d0 as [Tc vc| |b| |]; try dead H; try congruence.
+          -- destruct fs as [|f fs']; [dead H|].
+             destruct (negb is_set && Nat.leb (length (f :: fs')) idx)%bool; [dead H|].
+             binv H i s3 Hi. apply lift_inv in Hi. destruct Hi as [_ ->].
+             destruct (Nat.leb (length (f :: fs')) i); [dead H|].
+             exact (Hgo _ _ _ eq_refl H).
+          -- destruct fs as [|f fs']; [dead H|].
+             match type of H with resume (if ?c then _ else _) _ = _ => destruct c end; [|dead H].
+             destruct (nth_error (f :: fs') idx) as [[p0 ft]|]; [|dead H].
+             destruct (is_any ft); [|dead H].
+             exact (Hgo _ _ _ eq_refl H).
+  Qed.
+
+  Lemma c_raw_loop_inv sp ts : cspec_ok sp -> forall n last s d s', last <> DEoo ->
+    resume (raw_loop rec sp ts n last) s = inr (Ok d, s') ->
+    d <> DEoo /\ exists u kids q, took s s' (u ++ [0; 0]) /\ FE (fun sp' => sp' = sp) ts true u kids q
+                                  /\ (last = DNoValue -> kids <> []).
+  Proof.
+    intros Hok. induction n as [|n IH]; intros last s d s' Hl H; [dead H|].
+    cbn [raw_loop] in H. binv H d0 s1 Hd0.
+    destruct (Hcall _ _ _ _ _ _ Hok Hd0) as [(-> & _ & Ht0)|(Hne & u1 & n1 & q1 & Ht1 & HE1 & Hnz)].
+    - assert (Hx: last <> DNoValue /\ d = last /\ s' = s1).
+      { destruct last; try dead H; cbn [resume] in H; inversion H; subst; (split; [discriminate|auto]). }
+      destruct Hx as (Hnv & -> & ->). split; [exact Hl|].
+      exists [], [], false. split; [exact Ht0|]. split; [constructor|]. intros E. congruence.
+    - assert (H': resume (raw_loop rec sp ts n d0) s1 = inr (Ok d, s')) by (destruct d0; try exact H; congruence).
+      destruct (IH _ _ _ _ Hne H') as (Hd & u2 & kids & q2 & Ht2 & HF2 & _). split; [exact Hd|].
+      exists (u1 ++ u2), (n1 :: kids), (q1 || q2)%bool.
+      split; [rewrite <- app_assoc; exact (took_trans _ _ _ _ _ Ht1 Ht2)|]. split; [|discriminate].
+      apply (FE_cons _ _ _ sp); [reflexivity|exact Hok|exact HE1|intros _; apply Hnz; reflexivity|exact HF2].
+  Qed.
+
+  Lemma c_container_inv (b: bool) T' ts len s d s' : cplain T' = true ->
+    resume (if negb (tag0_cons ts) then Raise EMalformed else
+            match base_of T' with
+            | TSeq fs => dec_record rec lf T' fs false len
+            | TSet fs => dec_record rec lf T' fs true len
+            | TSeqOf t | TSetOf t => dec_listof rec lf T' t len
+            | _ => Raise EUnmodelled
+            end) s = inr (Ok d, s') ->
+    d <> DEoo /\ tag0_cons ts = true /\
+    exists u kids q, took s s' (u ++ eoo_tail len) /\ FE (child_spec (Some T')) [] (is_none len) u kids q.
+  Proof.
+    intros HpT H. destruct (tag0_cons ts); cbn [negb] in H; [|dead H].
+    pose proof (cplain_base _ HpT) as Hb. unfold child_spec.
+    destruct (base_of T') eqn:Eb; try dead H.
+    - unfold dec_record in H. cbv zeta in H. cbn [pbind tell resume] in H.
+      cbn [cplain] in Hb. rewrite cplain_fields in Hb.
+      assert (Hfne: fs <> []) by (intros ->; discriminate).
+      assert (Hb': forallb cplain (map snd fs) = true) by (destruct fs; [congruence|exact Hb]). clear Hb. rename Hb' into Hb.
+      destruct (c_record_loop_inv _ _ _ _ _ Hfne Hb _ _ _ _ _ _ _ H) as (Hd & X). auto.
+    - unfold dec_record in H. cbv zeta in H. cbn [pbind tell resume] in H.
+      cbn [cplain] in Hb. rewrite cplain_fields in Hb.
+      assert (Hfne: fs <> []) by (intros ->; discriminate).
+      assert (Hb': forallb cplain (map snd fs) = true) by (destruct fs; [congruence|exact Hb]). clear Hb. rename Hb' into Hb.
+      destruct (c_record_loop_inv _ _ _ _ _ Hfne Hb _ _ _ _ _ _ _ H) as (Hd & X). auto.
+    - unfold dec_listof in H. cbn [pbind tell resume] in H. cbn [cplain] in Hb.
+      destruct (c_listof_loop_inv _ _ _ _ Hb _ _ _ _ _ H) as (Hd & X). auto.
+    - unfold dec_listof in H. cbn [pbind tell resume] in H. cbn [cplain] in Hb.
+      destruct (c_listof_loop_inv _ _ _ _ Hb _ _ _ _ _ H) as (Hd & X). auto.
+  Qed.
+
+  Lemma c_dec_value_inv sp ts cd fl spT len s d s' :
+    cspec_ok sp -> sel CER sp ts = Ok (Some (cd, fl, spT)) ->
+    resume (dec_value rec lf cd fl spT ts len false) s = inr (Ok d, s') ->
+    d <> DEoo /\ exists u ct q, took s s' (u ++ eoo_tail len) /\ W sp ts (is_none len) u ct q
+                               /\ (len = None -> exists kids, ct = CKids kids).
+  Proof.
+    intros Hok Hsel H. destruct (sel_cer _ _ _ _ _ Hok Hsel) as (T' & -> & HpT & Hby).
+    assert (Hk: cd = DcBoolCer \/ (simple_cd cd = true /\ cd <> DcBoolBer) \/ container_cd cd = true).
+    { pose proof (by_type_cer_kind _ _ _ HpT Hby) as Hk. destruct (base_of T'); auto. }
+    assert (Hprim: forall u, took s s' u -> took s s' (u ++ eoo_tail (Some 0))) by (intros u Hu; cbn; rewrite app_nil_r; exact Hu).
+    unfold dec_value in H. cbv zeta in H.
+    destruct cd; destruct len as [l|]; cbv beta iota in H; try dead H;
+      try (exfalso; destruct Hk as [Hk|[[Hk Hk2]|Hk]]; try discriminate; congruence).
+    - (* DcInt *) pose proof (dec_integer_not_eoo _ _ _ _ _ _ _ _ H) as Hd. apply dec_integer_inv in H. destruct H as [Hs [u Hu]].
+      split; [exact Hd|]. exists u, CPrim, false. split; [exact (Hprim _ Hu)|]. split; [|discriminate].
+      eapply W_simple; eauto. discriminate.
+    - (* DcBoolCer *) pose proof (dec_bool_cer_not_eoo _ _ _ _ _ _ _ H) as Hd. apply dec_bool_cer_inv in H. destruct H as (u & Hu & Hb).
+      split; [exact Hd|]. exists u, CPrim, (tag0_cons ts). split; [exact (Hprim _ Hu)|]. split; [|discriminate].
+      eapply W_bool; eauto.
+    - (* DcNull *) pose proof (dec_null_not_eoo _ _ _ _ _ _ _ H) as Hd. apply dec_null_inv in H. destruct H as [Hs [u Hu]].
+      split; [exact Hd|]. exists u, CPrim, false. split; [exact (Hprim _ Hu)|]. split; [|discriminate].
+      eapply W_simple; eauto. discriminate.
+    - (* DcOid *) pose proof (dec_oid_not_eoo _ _ _ _ _ _ _ H) as Hd. apply dec_oid_inv in H. destruct H as [Hs [u Hu]].
+      split; [exact Hd|]. exists u, CPrim, false. split; [exact (Hprim _ Hu)|]. split; [|discriminate].
+      eapply W_simple; eauto. discriminate.
+    - (* DcReal *) pose proof (dec_real_not_eoo _ _ _ _ _ _ _ H) as Hd. apply dec_real_inv in H. destruct H as [Hs [u Hu]].
+      split; [exact Hd|]. exists u, CPrim, false. split; [exact (Hprim _ Hu)|]. split; [|discriminate].
+      eapply W_simple; eauto. discriminate.
+    - apply (c_container_inv false) in H; [|exact HpT]. destruct H as (Hd & Hc & u & kids & q & Hu & HF).
+      split; [exact Hd|]. exists u, (CKids kids), q. split; [exact Hu|]. split; [eapply W_container; eauto|eauto].
+    - apply (c_container_inv false) in H; [|exact HpT]. destruct H as (Hd & Hc & u & kids & q & Hu & HF).
+      split; [exact Hd|]. exists u, (CKids kids), q. split; [exact Hu|]. split; [eapply W_container; eauto|eauto].
+    - apply (c_container_inv false) in H; [|exact HpT]. destruct H as (Hd & Hc & u & kids & q & Hu & HF).
+      split; [exact Hd|]. exists u, (CKids kids), q. split; [exact Hu|]. split; [eapply W_container; eauto|eauto].
+    - apply (c_container_inv false) in H; [|exact HpT]. destruct H as (Hd & Hc & u & kids & q & Hu & HF).
+      split; [exact Hd|]. exists u, (CKids kids), q. split; [exact Hu|]. split; [eapply W_container; eauto|eauto].
+    - apply (c_container_inv false) in H; [|exact HpT]. destruct H as (Hd & Hc & u & kids & q & Hu & HF).
+      split; [exact Hd|]. exists u, (CKids kids), q. split; [exact Hu|]. split; [eapply W_container; eauto|eauto].
+    - apply (c_container_inv false) in H; [|exact HpT]. destruct H as (Hd & Hc & u & kids & q & Hu & HF).
+      split; [exact Hd|]. exists u, (CKids kids), q. split; [exact Hu|]. split; [eapply W_container; eauto|eauto].
+    - apply (c_container_inv false) in H; [|exact HpT]. destruct H as (Hd & Hc & u & kids & q & Hu & HF).
+      split; [exact Hd|]. exists u, (CKids kids), q. split; [exact Hu|]. split; [eapply W_container; eauto|eauto].
+    - apply (c_container_inv false) in H; [|exact HpT]. destruct H as (Hd & Hc & u & kids & q & Hu & HF).
+      split; [exact Hd|]. exists u, (CKids kids), q. split; [exact Hu|]. split; [eapply W_container; eauto|eauto].
+    - apply (c_container_inv false) in H; [|exact HpT]. destruct H as (Hd & Hc & u & kids & q & Hu & HF).
+      split; [exact Hd|]. exists u, (CKids kids), q. split; [exact Hu|]. split; [eapply W_container; eauto|eauto].
+    - apply (c_container_inv false) in H; [|exact HpT]. destruct H as (Hd & Hc & u & kids & q & Hu & HF).
+      split; [exact Hd|]. exists u, (CKids kids), q. split; [exact Hu|]. split; [eapply W_container; eauto|eauto].
+    - apply (c_container_inv false) in H; [|exact HpT]. destruct H as (Hd & Hc & u & kids & q & Hu & HF).
+      split; [exact Hd|]. exists u, (CKids kids), q. split; [exact Hu|]. split; [eapply W_container; eauto|eauto].
+    - apply (c_container_inv false) in H; [|exact HpT]. destruct H as (Hd & Hc & u & kids & q & Hu & HF).
+      split; [exact Hd|]. exists u, (CKids kids), q. split; [exact Hu|]. split; [eapply W_container; eauto|eauto].
+  Qed.
+
+  Lemma c_dispatch_inv sp ts len s d s' : cspec_ok sp ->
+    resume (dispatch CER rec lf sp ts len false) s = inr (Ok d, s') ->
+    d <> DEoo /\ exists u ct q, took s s' (u ++ eoo_tail len) /\ W sp ts (is_none len) u ct q
+                               /\ (forall l, len = Some l -> N.of_nat (length u) = l)
+                               /\ (len = None -> exists kids, ct = CKids kids).
+  Proof.
+    intros Hok H. rewrite dispatch_sel in H.
+    destruct (sel CER sp ts) as [[[[cd fl] spT]|]|e] eqn:Esel; [| |dead H].
+    - assert (Hk: resume (dec_value rec lf cd fl spT ts len false) s = inr (Ok d, s')
+                  /\ forall l, len = Some l -> N.of_nat (pos s' - pos s) = l).
+      { destruct len as [l|]; [apply run_value_inv in H; destruct H as [H Hl]; split; [exact H|intros l0 E; injection E as E; rewrite <- E; exact Hl]|].
+        split; [exact H|discriminate]. }
+      destruct Hk as [Hk Hl].
+      destruct (c_dec_value_inv _ _ _ _ _ _ _ _ _ Hok Esel Hk) as (Hd & u & ct & q & Hu & HW & Hck).
+      split; [exact Hd|]. exists u, ct, q. split; [exact Hu|]. split; [exact HW|]. split; [|exact Hck].
+      intros l E. subst len. specialize (Hl l eq_refl). cbn [eoo_tail is_none] in Hu. rewrite app_nil_r in Hu.
+      destruct Hu as [_ Hp]. rewrite <- Hl. f_equal. lia.
+    - destruct (explicit_tag ts) eqn:Ex; [|dead H]. destruct len as [l|].
+      + apply run_value_inv in H. destruct H as [H Hl]. unfold dec_raw in H.
+        destruct (Hcall _ _ _ _ _ _ Hok H) as [(_ & Hal & _)|(Hne & u & n & q & Hu & HE & _)]; [discriminate|].
+        split; [exact Hne|]. exists u, (CKids [n]), q. cbn [eoo_tail is_none]. rewrite app_nil_r.
+        split; [exact Hu|]. split; [eapply W_explicit; eauto|]. split; [|discriminate].
+        intros l0 E. injection E as E. rewrite <- E. destruct Hu as [_ Hp]. rewrite <- Hl. f_equal. lia.
+      + unfold run_value, dec_raw in H.
+        assert (Hnv: DNoValue <> DEoo) by discriminate.
+        destruct (c_raw_loop_inv _ _ Hok _ _ _ _ _ Hnv H) as (Hd & u & kids & q & Hu & HF & Hkne).
+        split; [exact Hd|]. exists u, (CKids kids), q. split; [exact Hu|].
+        split; [eapply W_explicit_indef; eauto|]. split; [discriminate|eauto].
+  Qed.
+End PhaseC.
+
+Lemma read_length_cer_inv s ol s' : resume (read_length CER) s = inr (Ok ol, s') ->
+  exists lb, took s s' lb /\
+    ((exists l, ol = Some l /\ forall x, dec_len (lb ++ x) = Some (Some l, x)) \/ (ol = None /\ lb = [128])).
+Proof.
+  unfold read_length. intros H. apply resume_pbind_inv in H. destruct H as (o & s1 & Ho & H).
+  apply read1_inv in Ho.
+  destruct (N.ltb o 128) eqn:E1.
+  - cbn [resume] in H. inversion H; subst; clear H. exists [o]. split; [exact Ho|]. left. exists o. split; [reflexivity|].
+    intros x. cbn [app dec_len]. rewrite E1. reflexivity.
+  - destruct (N.eqb_spec o 128) as [E2|E2].
+    + replace (support_indef CER) with true in H by reflexivity. cbn [resume] in H. inversion H; subst; clear H.
+      exists [128]. split; [exact Ho|]. right. auto.
+    + apply resume_pbind_inv in H. destruct H as (b & s2 & Hb & H).
+      pose proof (readN_inv _ _ _ _ Hb) as Ht.
+      cbn [resume] in H. inversion H; subst; clear H.
+      exists ([o] ++ b). split; [exact (took_trans _ _ _ _ _ Ho Ht)|]. left. exists (be_num 0 b). split; [reflexivity|].
+      intros x. cbn [app dec_len]. rewrite E1. apply N.eqb_neq in E2. rewrite E2. cbv zeta.
+      assert (Hlen: length b = N.to_nat (N.land o 127)).
+      { unfold readN in Hb. cbn [resume] in Hb.
+        destruct (attempt s1 (N.to_nat (N.land o 127))) as [[c| |] sm] eqn:Ea; cbn [resume] in Hb; try discriminate.
+        inversion Hb; subst; clear Hb. unfold attempt in Ea.
+        destruct (Nat.eqb_spec (N.to_nat (N.land o 127)) 0) as [Hz|Hz].
+        - inversion Ea; subst. rewrite Hz. reflexivity.
+        - destruct (Nat.ltb_spec (length (avail s1)) (N.to_nat (N.land o 127))) as [Hl|Hl]; [destruct (closed s1); discriminate|].
+          inversion Ea; subst. rewrite firstn_length. lia. }
+      destruct (Nat.ltb_spec (length (b ++ x)) (N.to_nat (N.land o 127))) as [Hl|Hl]; [rewrite app_length in Hl; lia|].
+      rewrite <- Hlen. rewrite TagOctets.firstn_app_exact, TagOctets.skipn_app_exact. reflexivity.
+Qed.
+
+Lemma readN_len n s b s' : resume (readN n) s = inr (Ok b, s') -> length b = n /\ arrived s' = arrived s.
+Proof.
+  unfold readN. cbn [resume]. destruct (attempt s n) as [[c| |] sm] eqn:E; cbn [resume]; intros H; try discriminate.
+  inversion H; subst; clear H. unfold attempt in E.
+  destruct (Nat.eqb_spec n 0) as [Hz|Hz].
+  - inversion E; subst. auto.
+  - destruct (Nat.ltb_spec (length (avail s)) n) as [Hl|Hl]; [destruct (closed s); discriminate|].
+    inversion E; subst. split; [rewrite firstn_length; lia|reflexivity].
+Qed.
+
+Lemma D_len2 sp acc u n q : E sp acc u n q -> (2 <= length u)%nat.
+Proof.
+  intros H. destruct H as [sp acc ib lb body t l ct qv Hi Hl _ _|sp acc ib body t kids qv Hi _].
+  - destruct ib as [|o r]; [specialize (Hi []); cbn in Hi; discriminate|].
+    destruct lb as [|o2 r2]; [specialize (Hl []); cbn in Hl; discriminate|]. rewrite !app_length. cbn [length]. lia.
+  - destruct ib as [|o r]; [specialize (Hi []); cbn in Hi; discriminate|]. rewrite !app_length. cbn [length]. lia.
+Qed.
+
+Section PhaseC2.
+  Variable rec : rec_t.
+  Variable lf : nat.
+  Hypothesis Hcall : ccall_ok rec.
+  Hypothesis Heoo : forall sp acc r allow sfun s s',
+    resume (rec sp acc r allow sfun) s = inr (Ok DEoo, s') -> allow = true /\ took s s' [0; 0].
+
+  Lemma c_main_inv sp acc s d s' : cspec_ok sp ->
+    resume (Mark (let! t := read_tag lf in let! len := read_length CER in dispatch CER rec lf sp (t :: acc) len false)) s = inr (Ok d, s') ->
+    d <> DEoo /\ exists u n q, took s s' u /\ E sp acc u n q.
+  Proof.
+    intros Hok H. cbn [resume] in H.
+    binv H t s1 Ht. apply read_tag_inv in Ht. destruct Ht as (ib & Hib & Hid).
+    binv H ol s2 Hl. apply read_length_cer_inv in Hl. destruct Hl as (lb & Hlb & Hol).
+    destruct (c_dispatch_inv _ _ Hcall Heoo _ _ _ _ _ _ Hok H) as (Hd & u & ct & q & Hu & HW & Hlen & Hck).
+    split; [exact Hd|].
+    destruct Hol as [(l & -> & Hdl)|(-> & ->)].
+    - cbn [eoo_tail is_none] in Hu, HW. rewrite app_nil_r in Hu.
+      exists (ib ++ lb ++ u), (mk_node (tcls t) (tnum t) u ct (ib ++ lb ++ u)), (N.eqb (hd 0 lb) 255 || q)%bool.
+      split; [apply took_mark; exact (took_trans _ _ _ _ _ Hib (took_trans _ _ _ _ _ Hlb Hu))|].
+      apply E_def with (l := l); try assumption. apply Hlen. reflexivity.
+    - cbn [eoo_tail is_none] in Hu, HW. destruct (Hck eq_refl) as (kids & ->).
+      exists (ib ++ [128] ++ u ++ [0; 0]), (Cons (tcls t) (tnum t) true kids (ib ++ [128] ++ u ++ [0; 0])), q.
+      split; [apply took_mark; exact (took_trans _ _ _ _ _ Hib (took_trans _ _ _ _ _ Hlb Hu))|].
+      apply E_indef; assumption.
+  Qed.
+
+  Lemma seek_back_same s s1 (b: bytes) : took s s1 b -> arrived s1 = arrived s -> length b = 2%nat ->
+    avail (setpos s1 (pos s1 - 2)) = avail s /\ pos (setpos s1 (pos s1 - 2)) = pos s.
+  Proof.
+    intros [_ Hp] Ha Hl. unfold avail. cbn [pos arrived setpos]. rewrite Ha.
+    replace (pos s1 - 2)%nat with (pos s) by lia. auto.
+  Qed.
+
+  Lemma c_dec_body_call sp acc allow s d s' : cspec_ok sp ->
+    resume (dec_body CER rec lf sp acc None allow false) s = inr (Ok d, s') ->
+    (d = DEoo /\ allow = true /\ took s s' [0; 0])
+    \/ (d <> DEoo /\ exists u n q, took s s' u /\ E sp acc u n q /\ (allow = true -> firstn 2 u <> [0; 0])).
+  Proof.
+    intros Hok H. unfold dec_body in H.
+    replace (support_indef CER) with true in H by reflexivity. rewrite Bool.andb_true_r in H.
+    destruct allow.
+    - binv H b s1 Hb. destruct (readN_len _ _ _ _ Hb) as [Hbl Hba]. apply readN_inv in Hb.
+      assert (Hmain: b <> [0; 0] ->
+                resume (SeekBack 2 (Mark (let! t := read_tag lf in let! len := read_length CER in dispatch CER rec lf sp (t :: acc) len false))) s1 = inr (Ok d, s') ->
+                d <> DEoo /\ exists u n q, took s s' u /\ E sp acc u n q /\ (true = true -> firstn 2 u <> [0; 0])).
+      { intros Hb0 H0. cbn [resume] in H0. cbn [resume] in H0.
+        destruct (seek_back_same _ _ _ Hb Hba Hbl) as [Hav Hpos].
+        change (resume (Mark (let! t := read_tag lf in let! len := read_length CER in dispatch CER rec lf sp (t :: acc) len false))
+                       (setpos s1 (pos s1 - 2)) = inr (Ok d, s')) in H0.
+        destruct (c_main_inv _ _ _ _ _ Hok H0) as (Hd & u & n & q & Hu & HE).
+        split; [exact Hd|]. exists u, n, q.
+        assert (Hu': took s s' u) by (destruct Hu as [A B]; split; [rewrite <- Hav; exact A|rewrite <- Hpos; exact B]).
+        split; [exact Hu'|]. split; [exact HE|]. intros _ Hf. apply Hb0.
+        pose proof (D_len2 _ _ _ _ _ HE) as Hl2. destruct Hb as [Hb1 _]. destruct Hu' as [Hu1 _].
+        rewrite Hb1 in Hu1. apply (f_equal (firstn 2)) in Hu1.
+        rewrite <- Hbl in Hu1 at 1. rewrite TagOctets.firstn_app_exact in Hu1.
+        rewrite firstn_app in Hu1. replace (2 - length u)%nat with 0%nat in Hu1 by lia. cbn [firstn] in Hu1. rewrite app_nil_r in Hu1.
+        rewrite Hu1. exact Hf. }
+      destruct b as [|x r1]; [right; apply Hmain; [discriminate|exact H]|].
+      destruct x; [|right; apply Hmain; [discriminate|exact H]].
+      destruct r1 as [|y r2]; [right; apply Hmain; [discriminate|exact H]|].
+      destruct y; [|right; apply Hmain; [discriminate|exact H]].
+      destruct r2; [|right; apply Hmain; [discriminate|exact H]].
+      cbn [resume] in H. inversion H; subst. left. split; [reflexivity|]. split; [reflexivity|exact Hb].
+    - destruct (c_main_inv _ _ _ _ _ Hok H) as (Hd & u & n & q & Hu & HE). right.
+      split; [exact Hd|]. exists u, n, q. split; [exact Hu|]. split; [exact HE|discriminate].
+  Qed.
+End PhaseC2.
+
+Theorem dec_call_cer_derivation : forall fuel, ccall_ok (dec_call CER fuel).
+Proof.
+  induction fuel as [|f IH].
+  - intros sp acc allow s d s' _ H. cbn [dec_call resume] in H. discriminate.
+  - intros sp acc allow s d s' Hok H. cbn [dec_call] in H.
+    apply (c_dec_body_call (dec_call CER f) f IH); [|exact Hok|exact H].
+    intros sp0 acc0 r0 allow0 sfun0 s0 s0' H0. exact (eoo_only CER f _ _ _ _ _ _ _ H0).
+Qed.
+
+Theorem decode_cer_derivation : forall T b d tl, cplain T = true ->
+  decode CER (Some T) b = Ok (d, tl) ->
+  exists used n q, b = used ++ tl /\ E (STy T) [] used n q.
+Proof.
+  intros T b d tl Hok H. unfold decode, run_complete in H.
+  destruct (resume (dec_item CER (dec_fuel (Some T) b) (Some T)) (mkStream b 0 true 0)) as [[p0 s0]|[[d0|e] s']] eqn:Ex; try discriminate.
+  inversion H; subst; clear H. unfold dec_item in Ex.
+  destruct (dec_call_cer_derivation (dec_fuel (Some T) b) (STy T) [] false _ _ _ Hok Ex)
+    as [(_ & Hx & _)|(_ & u & n & q & [Hu _] & HE & _)]; [discriminate|].
+  exists u, n, q. split; [exact Hu|exact HE].
+Qed.
+Print Assumptions decode_cer_derivation.
+
+(* ---------- what the CER derivation says about BOOLEAN, as a predicate on the tree ---------- *)
+
+(* induction on TLV trees *)
+Section node_ind_strong.
+  Variable P : node -> Prop.
+  Hypothesis HP : forall c num ct raw, P (Prim c num ct raw).
+  Hypothesis HC : forall c num i kids raw, Forall P kids -> P (Cons c num i kids raw).
+  Fixpoint node_ind' (n: node) : P n :=
+    match n with
+    | Prim c num ct raw => HP c num ct raw
+    | Cons c num i kids raw =>
+        HC c num i kids raw ((fix go (l: list node) : Forall P l :=
+                               match l with [] => Forall_nil _ | x :: r => Forall_cons x (node_ind' x) (go r) end) kids)
+    end.
+End node_ind_strong.
+
+Definition is_nil {X} (l: list X) : bool := match l with [] => true | _ => false end.
+
+(* cok n cs k rt: n is the k-th tag level of an element whose outermost tag is rt and whose type is one of
+   the candidates cs.  Either a candidate T' that starts with rt and has exactly k tags makes n its base
+   element - then a BOOLEAN is primitive with contents 00/FF, and the members of a constructed type are
+   elements of the component types, recursively, in definite or indefinite form - or n is a constructed
+   wrapper (an EXPLICIT tag) all of whose members are at level k+1 *)
+Fixpoint cok (n: node) (cs: list ty) (k: nat) (rt: tclass * N) {struct n} : bool :=
+  existsb (fun T' =>
+     may_start T' rt && Nat.eqb k (length (tagset_of' T')) &&
+     match base_of T' with
+     | TBool => match n with Prim _ _ c _ => strict_contents c | _ => false end
+     | TSeqOf t | TSetOf t =>
+         match n with Cons _ _ _ kids _ => forallb (fun kid => cok kid [t] 1 (node_tag kid)) kids | _ => false end
+     | TSeq fs | TSet fs =>
+         match n with Cons _ _ _ kids _ => forallb (fun kid => cok kid (map snd fs) 1 (node_tag kid)) kids | _ => false end
+     | _ => true
+     end) cs
+  || match n with
+     | Cons _ _ _ kids _ => negb (is_nil kids) && forallb (fun kid => cok kid cs (S k) rt) kids
+     | Prim _ _ _ _ => false
+     end.
+
+Lemma existsb_incl {X} (f: X -> bool) a b : incl a b -> existsb f a = true -> existsb f b = true.
+Proof. intros Hi H. apply existsb_exists in H. destruct H as (x & Hx & Hf). apply existsb_exists. exists x. split; [exact (Hi _ Hx)|exact Hf]. Qed.
+
+Lemma cok_mono : forall n cs cs' k rt, incl cs cs' -> cok n cs k rt = true -> cok n cs' k rt = true.
+Proof.
+  induction n as [c num ct raw|c num i kids raw IH] using node_ind'; intros cs cs' k rt Hi H.
+  - cbn [cok] in *. rewrite Bool.orb_false_r in *. exact (existsb_incl _ _ _ Hi H).
+  - cbn [cok] in *. apply Bool.orb_true_iff in H. apply Bool.orb_true_iff. destruct H as [H|H].
+    + left. exact (existsb_incl _ _ _ Hi H).
+    + right. apply andb_prop in H. destruct H as [H1 H2]. rewrite H1. cbn [andb].
+      apply forallb_forall. intros kid Hk. rewrite forallb_forall in H2. rewrite Forall_forall in IH.
+      exact (IH kid Hk cs cs' (S k) rt Hi (H2 kid Hk)).
+Qed.
+
+Definition cands (sp: spec) : list ty :=
+  match sp with STy T => [T] | SMap m => map snd (tm_present m) | SNone => [] end.
+Definition sp_cplain (sp: spec) : Prop :=
+  match sp with STy T => cplain T = true | SMap m => plainmap m /\ cmap_ok m | SNone => False end.
+Definition rtag (ts: tagset) : tclass * N := (tcls (last ts dtag), tnum (last ts dtag)).
+
+Lemma sp_cplain_plain sp : sp_cplain sp -> sp_plain sp /\ cspec_ok sp /\ sp <> SNone.
+Proof.
+  destruct sp as [|T|m]; cbn; [intros []| |].
+  - intros H. split; [exact (cplain_plain _ H)|]. split; [exact H|discriminate].
+  - intros [H1 H2]. split; [exact H1|]. split; [exact H2|discriminate].
+Qed.
+
+Lemma cand_cands sp T' : cand sp T' -> In T' (cands sp).
+Proof. destruct sp as [|T|m]; cbn; [intros []|intros ->; left; reflexivity|auto]. Qed.
+
+Definition node_of (c: tclass) (num: N) (i: bool) (body: bytes) (ct: content) (raw: bytes) : node :=
+  match ct with CPrim => Prim c num body raw | CKids kids => Cons c num i kids raw end.
+
+Definition HE (sp: spec) (acc: tagset) (used: bytes) (n: node) (q: bool) : Prop :=
+  sp_cplain sp -> exists t, node_tag n = (tcls t, tnum t) /\ cok n (cands sp) (S (length acc)) (rtag (t :: acc)) = true.
+Definition HW (sp: spec) (ts: tagset) (indef: bool) (body: bytes) (ct: content) (q: bool) : Prop :=
+  sp_cplain sp -> ts <> [] -> forall c num i raw, cok (node_of c num i body ct raw) (cands sp) (length ts) (rtag ts) = true.
+Definition HFE (A: spec -> Prop) (acc: tagset) (indef: bool) (body: bytes) (kids: list node) (q: bool) : Prop :=
+  Forall (fun k => exists sp' t, A sp' /\ node_tag k = (tcls t, tnum t) /\
+                    (sp_cplain sp' -> cok k (cands sp') (S (length acc)) (rtag (t :: acc)) = true)) kids.
+
+(* a candidate matched at this level *)
+Lemma cok_here n cs k rt T' : In T' cs -> may_start T' rt = true -> k = length (tagset_of' T') ->
+  match base_of T' with
+  | TBool => match n with Prim _ _ c _ => strict_contents c | _ => false end
+  | TSeqOf t | TSetOf t =>
+      match n with Cons _ _ _ kids _ => forallb (fun kid => cok kid [t] 1 (node_tag kid)) kids | _ => false end
+  | TSeq fs | TSet fs =>
+      match n with Cons _ _ _ kids _ => forallb (fun kid => cok kid (map snd fs) 1 (node_tag kid)) kids | _ => false end
+  | _ => true
+  end = true ->
+  cok n cs k rt = true.
+Proof.
+  intros Hin Hm Hk Hb.
+  assert (Hex: existsb (fun T' =>
+     may_start T' rt && Nat.eqb k (length (tagset_of' T')) &&
+     match base_of T' with
+     | TBool => match n with Prim _ _ c _ => strict_contents c | _ => false end
+     | TSeqOf t | TSetOf t =>
+         match n with Cons _ _ _ kids _ => forallb (fun kid => cok kid [t] 1 (node_tag kid)) kids | _ => false end
+     | TSeq fs | TSet fs =>
+         match n with Cons _ _ _ kids _ => forallb (fun kid => cok kid (map snd fs) 1 (node_tag kid)) kids | _ => false end
+     | _ => true
+     end) cs = true).
+  { apply existsb_exists. exists T'. split; [exact Hin|]. rewrite Hm, Hb. subst k. rewrite Nat.eqb_refl. reflexivity. }
+  destruct n; cbn [cok]; rewrite Hex; reflexivity.
+Qed.
+
+Lemma rtag_cons t ts : ts <> [] -> rtag (t :: ts) = rtag ts.
+Proof. intros H. unfold rtag. destruct ts as [|t0 r]; [congruence|reflexivity]. Qed.
+
+Lemma rtag_cong t t' acc : (tcls t, tnum t) = (tcls t', tnum t') -> rtag (t :: acc) = rtag (t' :: acc).
+Proof. intros H. unfold rtag. destruct acc as [|a r]; [cbn [last]; exact H|reflexivity]. Qed.
+
+Lemma node_of_mk c num body ct raw : node_of c num false body ct raw = mk_node c num body ct raw.
+Proof. destruct ct; reflexivity. Qed.
+
+(* the facts about a matched candidate, for CER *)
+Lemma cer_match sp ts cd fl spT : sp_cplain sp -> ts <> [] -> sel CER sp ts = Ok (Some (cd, fl, spT)) ->
+  exists T', spT = Some T' /\ cplain T' = true /\ by_type CER T' = Some (cd, fl) /\ In T' (cands sp)
+             /\ may_start T' (rtag ts) = true /\ length ts = length (tagset_of' T').
+Proof.
+  intros Hpl Hne Hsel. destruct (sp_cplain_plain _ Hpl) as (Hsp & Hok & Hn).
+  destruct (sel_guided_gen CER _ _ _ _ _ Hsel Hsp Hn) as (T' & -> & HpT & Hby & Heq & Hc).
+  destruct (sel_cer _ _ _ _ _ Hok Hsel) as (T'' & E & HcT & _). inversion E; subst T''.
+  exists T'. split; [reflexivity|]. split; [exact HcT|]. split; [exact Hby|]. split; [exact (cand_cands _ _ Hc)|].
+  pose proof (tagset_eqb_len _ _ Heq) as Hl. split; [|exact Hl].
+  unfold rtag. apply last_may_start; [exact HpT| |exact (tagset_eqb_last _ _ Heq)].
+  intros E0. rewrite E0 in Hl. destruct ts; [congruence|discriminate].
+Qed.
+
+Theorem derivation_cok :
+  (forall sp acc used n q, E sp acc used n q -> HE sp acc used n q)
+  /\ (forall sp ts indef body ct q, W sp ts indef body ct q -> HW sp ts indef body ct q)
+  /\ (forall A acc indef body kids q, FE A acc indef body kids q -> HFE A acc indef body kids q).
+Proof.
+  apply EWF_ind.
+  - (* E_def *)
+    intros sp acc ib lb body t l ct qv Hid Hdl Hlen HWv IHW Hpl. exists t. split; [destruct ct; reflexivity|].
+    rewrite <- node_of_mk. apply (IHW Hpl); discriminate.
+  - (* E_indef *)
+    intros sp acc ib body t kids qv Hid HWv IHW Hpl. exists t. split; [reflexivity|].
+    assert (Hne: t :: acc <> []) by discriminate.
+    exact (IHW Hpl Hne (tcls t) (tnum t) true _).
+  - (* W_bool *)
+    intros sp ts fl spT body Hsel Hb Hpl Hne c num i raw.
+    destruct (cer_match _ _ _ _ _ Hpl Hne Hsel) as (T' & _ & HcT & Hby & Hin & Hms & Hl).
+    pose proof (by_type_cer_kind _ _ _ HcT Hby) as Hk.
+    apply (cok_here _ _ _ _ T' Hin Hms Hl). cbn [node_of].
+    destruct (base_of T'); try reflexivity; try discriminate; try (apply proj1 in Hk; discriminate).
+    apply strict_contents_ok. exact Hb.
+  - (* W_simple *)
+    intros sp ts cd fl spT body Hsel Hcd Hnb Hs Hpl Hne c num i raw.
+    destruct (cer_match _ _ _ _ _ Hpl Hne Hsel) as (T' & _ & HcT & Hby & Hin & Hms & Hl).
+    pose proof (by_type_cer_kind _ _ _ HcT Hby) as Hk.
+    apply (cok_here _ _ _ _ T' Hin Hms Hl). cbn [node_of].
+    destruct (base_of T'); try reflexivity; try (subst cd; discriminate); try (destruct cd; discriminate).
+  - (* W_container *)
+    intros sp ts indef cd fl spT body kids q Hsel Hcd Hcons HFk IHF Hpl Hne c num i raw.
+    destruct (cer_match _ _ _ _ _ Hpl Hne Hsel) as (T' & -> & HcT & Hby & Hin & Hms & Hl).
+    pose proof (by_type_cer_kind _ _ _ HcT Hby) as Hk. pose proof (cplain_base _ HcT) as Hcb.
+    apply (cok_here _ _ _ _ T' Hin Hms Hl). cbn [node_of].
+    unfold HFE, child_spec in IHF.
+    destruct (base_of T') eqn:Eb; try reflexivity; try (subst cd; discriminate);
+      try (apply proj1 in Hk; destruct cd; discriminate).
+    + (* SEQUENCE *)
+      cbn [cplain] in Hcb. rewrite cplain_fields in Hcb.
+      assert (Hfs: fs <> [] /\ forallb cplain (map snd fs) = true) by (destruct fs; [discriminate|split; [discriminate|exact Hcb]]).
+      destruct Hfs as [Hfne Hfs]. apply forallb_forall. intros kid Hkid. rewrite Forall_forall in IHF.
+      destruct (IHF _ Hkid) as (sp' & tk & Hch & Htag & Hcl). rewrite Htag.
+      destruct Hch as [[E0 _]|[(f & Hf & ->)|(u & fs' & Hinc & ->)]]; [congruence| |].
+      * assert (Hcf: cplain f = true) by (rewrite forallb_forall in Hfs; exact (Hfs _ Hf)).
+        apply (cok_mono kid [f]); [intros x [<-|[]]; exact Hf|]. exact (Hcl Hcf).
+      * assert (Hc': forallb cplain fs' = true) by (apply forallb_forall; intros x Hx; rewrite forallb_forall in Hfs; exact (Hfs _ (Hinc _ Hx))).
+        assert (Hp': forallb plain fs' = true) by (apply forallb_forall; intros x Hx; rewrite forallb_forall in Hc'; exact (cplain_plain _ (Hc' _ Hx))).
+        destruct (fields_tagmap_plain u fs' Hp') as [Hpm Hrange].
+        apply (cok_mono kid (cands (SMap (fields_tagmap u fs')))); [|exact (Hcl (conj Hpm (fields_tagmap_cok u fs' Hc')))].
+        intros x Hx. cbn [cands] in Hx. apply in_map_iff in Hx. destruct Hx as (kt & <- & Hkt).
+        rewrite Forall_forall in Hrange. exact (Hinc _ (Hrange _ Hkt)).
+    + (* SET *)
+      cbn [cplain] in Hcb. rewrite cplain_fields in Hcb.
+      assert (Hfs: fs <> [] /\ forallb cplain (map snd fs) = true) by (destruct fs; [discriminate|split; [discriminate|exact Hcb]]).
+      destruct Hfs as [Hfne Hfs]. apply forallb_forall. intros kid Hkid. rewrite Forall_forall in IHF.
+      destruct (IHF _ Hkid) as (sp' & tk & Hch & Htag & Hcl). rewrite Htag.
+      destruct Hch as [[E0 _]|[(f & Hf & ->)|(u & fs' & Hinc & ->)]]; [congruence| |].
+      * assert (Hcf: cplain f = true) by (rewrite forallb_forall in Hfs; exact (Hfs _ Hf)).
+        apply (cok_mono kid [f]); [intros x [<-|[]]; exact Hf|]. exact (Hcl Hcf).
+      * assert (Hc': forallb cplain fs' = true) by (apply forallb_forall; intros x Hx; rewrite forallb_forall in Hfs; exact (Hfs _ (Hinc _ Hx))).
+        assert (Hp': forallb plain fs' = true) by (apply forallb_forall; intros x Hx; rewrite forallb_forall in Hc'; exact (cplain_plain _ (Hc' _ Hx))).
+        destruct (fields_tagmap_plain u fs' Hp') as [Hpm Hrange].
+        apply (cok_mono kid (cands (SMap (fields_tagmap u fs')))); [|exact (Hcl (conj Hpm (fields_tagmap_cok u fs' Hc')))].
+        intros x Hx. cbn [cands] in Hx. apply in_map_iff in Hx. destruct Hx as (kt & <- & Hkt).
+        rewrite Forall_forall in Hrange. exact (Hinc _ (Hrange _ Hkt)).
+    + (* SEQUENCE OF *)
+      cbn [cplain] in Hcb. apply forallb_forall. intros kid Hkid. rewrite Forall_forall in IHF.
+      destruct (IHF _ Hkid) as (sp' & tk & Hch & Htag & Hcl). rewrite Htag. subst sp'. exact (Hcl Hcb).
+    + (* SET OF *)
+      cbn [cplain] in Hcb. apply forallb_forall. intros kid Hkid. rewrite Forall_forall in IHF.
+      destruct (IHF _ Hkid) as (sp' & tk & Hch & Htag & Hcl). rewrite Htag. subst sp'. exact (Hcl Hcb).
+  - (* W_explicit *)
+    intros sp ts body n q Hsel Hex HEn IHE Hpl Hne c num i raw. cbn [node_of cok].
+    apply Bool.orb_true_iff. right. cbn [is_nil negb andb forallb].
+    destruct (IHE Hpl) as (t1 & Htag & Hc). rewrite (rtag_cons _ _ Hne) in Hc. cbn [length] in Hc. rewrite Hc. reflexivity.
+  - (* W_explicit_indef *)
+    intros sp ts body kids q Hsel Hex Hkne HFk IHF Hpl Hne c num i raw. cbn [node_of cok].
+    apply Bool.orb_true_iff. right.
+    assert (Hnil: negb (is_nil kids) = true) by (destruct kids; [congruence|reflexivity]). rewrite Hnil. cbn [andb].
+    apply forallb_forall. intros kid Hkid. unfold HFE in IHF. rewrite Forall_forall in IHF.
+    destruct (IHF _ Hkid) as (sp' & tk & -> & Htag & Hcl). specialize (Hcl Hpl).
+    rewrite (rtag_cons _ _ Hne) in Hcl. exact Hcl.
+  - intros A acc indef. constructor.
+  - (* FE_cons *)
+    intros A acc indef sp u n q rest ns qs HA Hok HEn IHE Hnz HFr IHF. constructor; [|exact IHF].
+    exists sp, (mkTag (fst (node_tag n)) false (snd (node_tag n))). split; [exact HA|]. split; [destruct (node_tag n); reflexivity|].
+    intros Hpl. destruct (IHE Hpl) as (t' & Htag & Hc).
+    rewrite (rtag_cong _ t' acc); [exact Hc|]. cbn [tcls tnum]. rewrite <- Htag. destruct (node_tag n); reflexivity.
+Qed.
+
+(* ---------- the CER derivation against the reference parser ---------- *)
+
+(* the member loop of an indefinite-length constructed TLV inside X690.parse_one *)
+Definition many_indef (f: nat) : nat -> bytes -> option (list node * bytes) :=
+  fix many (k: nat) (cs: bytes) : option (list node * bytes) :=
+    match k with
+    | O => None
+    | S k' => match cs with
+              | 0 :: 0 :: cs' => Some ([], cs')
+              | _ => match parse_one f cs with
+                     | Some (nd, cs') => match many k' cs' with Some (l, r) => Some (nd :: l, r) | None => None end
+                     | None => None
+                     end
+              end
+    end.
+
+Lemma parse_one_indef f b c num r1 r2 :
+  split_ident b = Some (c, true, num, r1) -> split_length r1 = Some (None, r2) ->
+  parse_one (S f) b =
+  match many_indef f (S (length r2)) r2 with
+  | Some (kids, rest) => Some (Cons c num true kids (firstn (length b - length rest) b), rest)
+  | None => None
+  end.
+Proof. intros H1 H2. cbn [parse_one]. rewrite H1, H2. reflexivity. Qed.
+
+Lemma many_indef_eoo f k tl : many_indef f (S k) (0 :: 0 :: tl) = Some ([], tl).
+Proof. reflexivity. Qed.
+
+Lemma many_indef_step f k (x y: N) r : [x; y] <> [0; 0] ->
+  many_indef f (S k) (x :: y :: r) =
+  match parse_one f (x :: y :: r) with
+  | Some (nd, cs') => match many_indef f k cs' with Some (l, r') => Some (nd :: l, r') | None => None end
+  | None => None
+  end.
+Proof. intros H. destruct x; [destruct y; [congruence|reflexivity]|reflexivity]. Qed.
+
+Definition PE (sp: spec) (acc: tagset) (used: bytes) (n: node) (q: bool) : Prop :=
+  forallb wf_byte used = true -> forall f tl, (length used <= f)%nat ->
+  parse_one (S f) (used ++ tl) = if q then None else Some (n, tl).
+Definition members_ok (indef: bool) (body: bytes) (kids: list node) (q: bool) : Prop :=
+  if indef
+  then forall f k tl, (length body < f)%nat -> (length body < k)%nat ->
+       many_indef f k (body ++ [0; 0] ++ tl) = if q then None else Some (kids, tl)
+  else forall f k, (length body < f)%nat -> (length body < k)%nat ->
+       many_def f k body = if q then None else Some kids.
+Definition PW (sp: spec) (ts: tagset) (indef: bool) (body: bytes) (ct: content) (q: bool) : Prop :=
+  forallb wf_byte body = true ->
+  match ct with
+  | CPrim => indef = false /\ (if q then tag0_cons ts = true /\ (body = [0] \/ body = [255]) else tag0_cons ts = false)
+  | CKids kids => tag0_cons ts = true /\ members_ok indef body kids q
+  end.
+Definition PFE (A: spec -> Prop) (acc: tagset) (indef: bool) (body: bytes) (kids: list node) (q: bool) : Prop :=
+  forallb wf_byte body = true -> members_ok indef body kids q.
+
+Lemma explicit_cons ts : explicit_tag ts = true -> tag0_cons ts = true.
+Proof. destruct ts as [|t r]; [discriminate|]. cbn. intros H. apply andb_prop in H. exact (proj1 H). Qed.
+
+Theorem cer_derivation_parse :
+  (forall sp acc used n q, E sp acc used n q -> PE sp acc used n q)
+  /\ (forall sp ts indef body ct q, W sp ts indef body ct q -> PW sp ts indef body ct q)
+  /\ (forall A acc indef body kids q, FE A acc indef body kids q -> PFE A acc indef body kids q).
+Proof.
+  apply EWF_ind.
+  - (* E_def *)
+    intros sp acc ib lb body t l ct qv Hid Hdl Hlen HV IHV Hwf f tl Hf.
+    apply wf_app in Hwf. destruct Hwf as [Hwi Hwf]. apply wf_app in Hwf. destruct Hwf as [Hwl Hwb].
+    specialize (IHV Hwb).
+    pose proof (Hid []) as Hid0. rewrite app_nil_r in Hid0.
+    pose proof (Hdl []) as Hdl0. rewrite app_nil_r in Hdl0.
+    assert (Hlne: lb <> []) by (intros ->; cbn in Hdl0; discriminate).
+    assert (Hine: ib <> []) by (intros ->; cbn in Hid0; discriminate).
+    assert (Hb: (ib ++ lb ++ body) ++ tl = ib ++ (lb ++ (body ++ tl))) by (rewrite <- !app_assoc; reflexivity).
+    pose proof (ident_bridge ib t Hwi Hid0 (lb ++ (body ++ tl))) as Hsi. rewrite <- Hb in Hsi.
+    destruct (N.eqb_spec (hd 0 lb) 255) as [Eff|Eff]; cbn [orb].
+    + apply (parse_one_nolen f _ _ _ _ _ Hsi). apply len_reserved; assumption.
+    + pose proof (len_bridge lb l Hwl Hdl0 Eff (body ++ tl)) as Hsl.
+      assert (Hn: N.to_nat l = length body) by lia.
+      assert (Hlt: Nat.ltb (length (body ++ tl)) (N.to_nat l) = false) by (apply Nat.ltb_ge; rewrite app_length; lia).
+      assert (Hraw: firstn (length ((ib ++ lb ++ body) ++ tl) - length tl) ((ib ++ lb ++ body) ++ tl) = ib ++ lb ++ body).
+      { rewrite (app_length (ib ++ lb ++ body) tl). replace (length (ib ++ lb ++ body) + length tl - length tl)%nat with (length (ib ++ lb ++ body)) by lia.
+        apply TagOctets.firstn_app_exact. }
+      assert (Hil: (length body + 2 <= length (ib ++ lb ++ body))%nat).
+      { rewrite !app_length. destruct ib; [congruence|]. destruct lb; [congruence|]. cbn [length]. lia. }
+      destruct (tcon t) eqn:Etc.
+      * rewrite (parse_one_cons f _ _ _ _ _ _ Hsi Hsl), Hlt, Hn.
+        rewrite TagOctets.firstn_app_exact, TagOctets.skipn_app_exact, Hraw.
+        destruct ct as [|kids]; cbn [mk_node].
+        -- destruct IHV as [_ IHV]. destruct qv.
+           ++ destruct IHV as [_ [->| ->]]; cbn [length many_def]; rewrite parse_one_single; reflexivity.
+           ++ cbn [tag0_cons] in IHV. congruence.
+        -- destruct IHV as [_ IHV]. unfold members_ok in IHV. rewrite (IHV f (S (length body))) by lia. destruct qv; reflexivity.
+      * rewrite (parse_one_prim f _ _ _ _ _ _ Hsi Hsl), Hlt, Hn.
+        rewrite TagOctets.firstn_app_exact, TagOctets.skipn_app_exact, Hraw.
+        destruct ct as [|kids]; cbn [mk_node].
+        -- destruct IHV as [_ IHV]. destruct qv; [destruct IHV as [IHV _]; cbn [tag0_cons] in IHV; congruence|reflexivity].
+        -- destruct IHV as [IHV _]. cbn [tag0_cons] in IHV. congruence.
+  - (* E_indef *)
+    intros sp acc ib body t kids qv Hid HV IHV Hwf f tl Hf.
+    apply wf_app in Hwf. destruct Hwf as [Hwi Hwf]. apply wf_app in Hwf. destruct Hwf as [_ Hwf].
+    apply wf_app in Hwf. destruct Hwf as [Hwb _].
+    destruct (IHV Hwb) as [Hcons IHm]. cbn [tag0_cons] in Hcons. unfold members_ok in IHm.
+    pose proof (Hid []) as Hid0. rewrite app_nil_r in Hid0.
+    assert (Hb: (ib ++ [128] ++ body ++ [0; 0]) ++ tl = ib ++ (128 :: (body ++ [0; 0] ++ tl))).
+    { rewrite <- !app_assoc. reflexivity. }
+    pose proof (ident_bridge ib t Hwi Hid0 (128 :: (body ++ [0; 0] ++ tl))) as Hsi. rewrite <- Hb in Hsi. rewrite Hcons in Hsi.
+    assert (Hsl: split_length (128 :: (body ++ [0; 0] ++ tl)) = Some (None, body ++ [0; 0] ++ tl)) by reflexivity.
+    rewrite (parse_one_indef f _ _ _ _ _ Hsi Hsl).
+    remember (ib ++ [128] ++ body ++ [0; 0]) as used0 eqn:Eu0.
+    assert (Hlen: (length body + 4 <= length used0)%nat).
+    { rewrite Eu0, !app_length. cbn [length]. destruct ib; [cbn in Hid0; discriminate|cbn [length]; lia]. }
+    remember (body ++ [0; 0] ++ tl) as r2 eqn:Er2.
+    assert (Hr2: (length body < S (length r2))%nat) by (rewrite Er2, !app_length; lia).
+    rewrite Er2 at 2. rewrite (IHm f (S (length r2)) tl) by lia.
+    destruct qv; [reflexivity|].
+    rewrite (app_length used0 tl).
+    replace (length used0 + length tl - length tl)%nat with (length used0) by lia.
+    rewrite TagOctets.firstn_app_exact. reflexivity.
+  - (* W_bool *) intros sp ts fl spT body Hsel Hb Hwf. cbn. split; [reflexivity|]. destruct (tag0_cons ts); auto.
+  - (* W_simple *) intros sp ts cd fl spT body Hsel Hcd Hnb Hs Hwf. cbn. split; [reflexivity|]. apply simple_not_cons. exact Hs.
+  - (* W_container *) intros sp ts indef cd fl spT body kids q Hsel Hcd Hc HF IHF Hwf. cbn. split; [exact Hc|]. exact (IHF Hwf).
+  - (* W_explicit *)
+    intros sp ts body n q Hsel Hex HD IHD Hwf. cbn. split; [exact (explicit_cons _ Hex)|].
+    intros f k Hf Hk. apply single_kid; [|exact Hf|exact Hk|].
+    + pose proof (D_len2 _ _ _ _ _ HD). destruct body; [cbn in *; lia|discriminate].
+    + intros f' tl Hf'. exact (IHD Hwf f' tl Hf').
+  - (* W_explicit_indef *)
+    intros sp ts body kids q Hsel Hex Hkne HF IHF Hwf. cbn. split; [exact (explicit_cons _ Hex)|]. exact (IHF Hwf).
+  - (* FE_nil *)
+    intros A acc indef Hwf. unfold members_ok. destruct indef.
+    + intros f k tl Hf Hk. destruct k as [|k]; [cbn [length] in Hk; lia|]. reflexivity.
+    + intros f k Hf Hk. destruct k as [|k]; [cbn [length] in Hk; lia|]. reflexivity.
+  - (* FE_cons *)
+    intros A acc indef sp u n q rest ns qs HA Hok HD IHD Hnz HF IHF Hwf.
+    apply wf_app in Hwf. destruct Hwf as [Hwu Hwr]. specialize (IHF Hwr).
+    pose proof (D_len2 _ _ _ _ _ HD) as Hl2. unfold members_ok in *. destruct indef.
+    + intros f k tl Hf Hk. rewrite app_length in Hf, Hk.
+      destruct k as [|k]; [lia|]. destruct f as [|f]; [lia|].
+      destruct u as [|x [|y r]] eqn:Eu; try (cbn [length] in Hl2; lia). rewrite <- Eu in *.
+      assert (Hxy: [x; y] <> [0; 0]) by (specialize (Hnz eq_refl); rewrite Eu in Hnz; exact Hnz).
+      assert (Hcs: (u ++ rest) ++ [0; 0] ++ tl = x :: y :: (r ++ rest ++ [0; 0] ++ tl)) by (rewrite Eu, <- !app_assoc; reflexivity).
+      rewrite Hcs, (many_indef_step _ _ _ _ _ Hxy), <- Hcs, <- app_assoc.
+      rewrite (IHD Hwu f (rest ++ [0; 0] ++ tl)) by lia.
+      destruct q; cbn [orb]; [reflexivity|].
+      rewrite (IHF (S f) k tl) by lia. destruct qs; reflexivity.
+    + intros f k Hf Hk. rewrite app_length in Hf, Hk.
+      destruct k as [|k]; [lia|]. destruct f as [|f]; [lia|].
+      cbn [many_def]. destruct (u ++ rest) as [|o r] eqn:Eur; [destruct u; [cbn [length] in Hl2; lia|discriminate]|]. rewrite <- Eur.
+      rewrite (IHD Hwu f rest) by lia.
+      destruct q; cbn [orb]; [reflexivity|].
+      fold (many_def (S f)). rewrite (IHF (S f) k) by lia. destruct qs; reflexivity.
+Qed.
+
+(* ---------- the global statement for CER ---------- *)
+
+(* Whatever the CER decoder accepts under a guiding type T (no strings, ANY, CHOICE): the octets consumed
+   are one TLV tree n - definite or indefinite lengths at any level - in which every element that T makes a
+   BOOLEAN, at every depth and under any tagging, is primitive with contents 00 or FF ([cok]); n is the tree
+   of the reference parser unless the input uses a first length octet FF or a constructed BOOLEAN (q). *)
+Theorem cer_accepts_boolean_strict : forall T b d tl, wf_bytes b = true -> cplain T = true ->
+  decode CER (Some T) b = Ok (d, tl) ->
+  exists used n q, b = used ++ tl /\ E (STy T) [] used n q /\ cok n [T] 1 (node_tag n) = true
+                   /\ X690.parse b = (if q then None else Some (n, tl)).
+Proof.
+  intros T b d tl Hwf Hp H.
+  destruct (decode_cer_derivation T b d tl Hp H) as (used & n & q & Hb & HE0).
+  exists used, n, q. split; [exact Hb|]. split; [exact HE0|]. split.
+  - destruct derivation_cok as [H1 _]. destruct (H1 _ _ _ _ _ HE0 Hp) as (t & Htag & Hc).
+    cbn [cands length] in Hc. unfold rtag in Hc. cbn [last] in Hc. rewrite Htag. exact Hc.
+  - destruct cer_derivation_parse as [H1 _]. unfold X690.parse. rewrite Hb.
+    unfold wf_bytes in Hwf. rewrite Hb in Hwf. apply wf_app in Hwf. destruct Hwf as [Hwu _].
+    apply (H1 _ _ _ _ _ HE0 Hwu). rewrite app_length. lia.
+Qed.
+
+Corollary cer_accepts_parsed_boolean_strict : forall T b d tl n rest, wf_bytes b = true -> cplain T = true ->
+  decode CER (Some T) b = Ok (d, tl) -> X690.parse b = Some (n, rest) ->
+  rest = tl /\ cok n [T] 1 (node_tag n) = true.
+Proof.
+  intros T b d tl n rest Hwf Hp H Hpa.
+  destruct (cer_accepts_boolean_strict T b d tl Hwf Hp H) as (used & n0 & q & Hb & _ & Hc & Hq).
+  rewrite Hpa in Hq. destruct q; [discriminate|]. inversion Hq; subst. auto.
+Qed.
+
+(* SEQUENCE { [0] EXPLICIT [APPLICATION 3] IMPLICIT BOOLEAN, INTEGER OPTIONAL, SET OF BOOLEAN }, indefinite lengths *)
+Definition ex_cty : ty :=
+  TSeq [(Req, TExp (mkTag Ctx false 0) (TImp (mkTag Appl false 3) TBool)); (Opt, TInt); (Req, TSetOf TBool)].
+Example cer_accepts_boolean_strict_ex :
+  let b := [48; 128; 160; 128; 67; 1; 255; 0; 0; 2; 1; 5; 49; 128; 1; 1; 0; 1; 1; 255; 0; 0; 0; 0] in
+  wf_bytes b = true /\ cplain ex_cty = true
+  /\ (exists d, decode CER (Some ex_cty) b = Ok (d, []))
+  /\ (exists n, X690.parse b = Some (n, []) /\ cok n [ex_cty] 1 (node_tag n) = true).
+Proof. vm_compute. split; [reflexivity|]. split; [reflexivity|]. split; eexists; [reflexivity|split; reflexivity]. Qed.
+
+(* the predicate tells a lax BOOLEAN apart: same octets with 01 in the SET OF *)
+Example cok_discriminates :
+  let b := [48; 128; 160; 128; 67; 1; 255; 0; 0; 2; 1; 5; 49; 128; 1; 1; 1; 0; 0; 0; 0] in
+  (exists n, X690.parse b = Some (n, []) /\ cok n [ex_cty] 1 (node_tag n) = false)
+  /\ decode CER (Some ex_cty) b = Err EMalformed
+  /\ (exists d, decode BER (Some ex_cty) b = Ok (d, [])).
+Proof. vm_compute. split; [eexists; split; reflexivity|]. split; [reflexivity|eexists; reflexivity]. Qed.
+
+(* likewise gshape for DER: SEQUENCE { BOOLEAN, INTEGER } with BOOLEAN 05 *)
+Example gshape_discriminates :
+  let T := TSeq [(Req, TBool); (Req, TInt)] in
+  (exists n, X690.parse [48; 6; 1; 1; 5; 2; 1; 5] = Some (n, []) /\ gshape T n = false)
+  /\ (exists n, X690.parse [48; 6; 1; 1; 255; 2; 1; 5] = Some (n, []) /\ gshape T n = true)
+  /\ decode DER (Some T) [48; 6; 1; 1; 5; 2; 1; 5] = Err EMalformed.
+Proof. vm_compute. split; [eexists; split; reflexivity|]. split; [eexists; split; reflexivity|reflexivity]. Qed.
+
+Print Assumptions eoo_only.
+Print Assumptions dec_call_cer_derivation.
+Print Assumptions derivation_cok.
+Print Assumptions cer_derivation_parse.
+Print Assumptions cer_accepts_boolean_strict.
+Print Assumptions cer_accepts_parsed_boolean_strict.
